@@ -18,11 +18,440 @@ EXPLANATION = (
     "by the 22-byte prefix comparison and contained in try/except Exception; every wire-supplied length in a Packer "
     "is honoured against the buffer; consume_all remainder check; snapshot loader exception containment. In the same "
     "region every removal by key from a table (del t[k], t.pop(k) without default, self.t.remove(x)) must be dominated by a "
-    "still-valid membership test or lie under a handler for the exception it raises."
+    "still-valid membership test or lie under a handler for the exception it raises. Guards are recognised by what they "
+    "establish, not by where they are written: a decision kept in a local or returned by a helper (bool, value-or-None, tuple, "
+    "tag) carries the facts that held where it was taken; a construct that moved into a helper of the class, behind a "
+    "conditional expression or a dict/tuple of bound methods is judged inside the helper and at every call of it."
 )
 
 SER = "ipv8/messaging/serialization.py"
 FOREIGN_CALLS = {"decrypt_str", "encrypt_str"}
+
+
+# ------------------------------------------------------------------------------------------ decisions kept in locals
+class _Decisions:
+    """
+    Facts that hold at a site because of a DECISION stored in a local (or returned by a helper) and tested later:
+
+        msg_id = data[22] if <guard> else None          ours = <guard>             tag = self._classify(data)
+        if msg_id is None: return                       if not ours: return        if tag != "ours": return
+        ... site ...                                    ... site ...               ... site ...
+
+    The dominating fact at the site only speaks about the local (`msg_id is not None`).  The local's current value was
+    produced by one of its definitions; definitions whose value is a constant that contradicts the tested fact cannot be
+    the producing one, so whatever held at EVERY remaining definition (branch facts at the definition, the condition of
+    a conditional expression, the conjuncts of a boolean value tested for truth, and - for a call of a library function -
+    what holds at every return statement that can produce such a value, with parameters replaced by the arguments) held
+    when the value was produced.  It still holds at the site when no name it mentions is rebound in between.
+    Every step is an implication, never a guess: an unknown definition contributes only the branch facts at its own position.
+    """
+
+    MAX_DEPTH = 3
+
+    def __init__(self, ctx: Ctx) -> None:
+        self.ctx = ctx
+        self.repo = ctx.repo
+        self._memo: dict = {}
+
+    # ---- public
+    def facts(self, fi: FuncInfo, cfg, site, depth: int = 0) -> list:
+        key = (fi, id(site), depth)
+        if key in self._memo:
+            return self._memo[key]
+        self._memo[key] = []                       # recursion guard (loops: a definition that depends on itself)
+        base = facts_at(cfg, site)
+        nodes = [site] if isinstance(site, _CfgNode) else cfg.nodes_for(site)
+        der = self.derive(fi, cfg, base, nodes, depth)
+        self._memo[key] = base + der
+        self._memo[key + ("derived",)] = der
+        return base + der
+
+    def derived(self, fi: FuncInfo, cfg, site) -> list:
+        """Only the facts obtained through decision locals / decision helpers (not the plain branch facts)."""
+        self.facts(fi, cfg, site)
+        return self._memo.get((fi, id(site), 0, "derived"), [])
+
+    def derive(self, fi: FuncInfo, cfg, base: list, site_nodes: list, depth: int) -> list:
+        out: list = []
+        if depth >= self.MAX_DEPTH or not site_nodes:
+            return out
+        for f in base:
+            if f.op == "truthy" and f.pos and isinstance(f.left, ast.Compare) and len(f.left.ops) > 1:
+                # a chained comparison that held: each link held (`23 <= len(data) <= limit`)
+                at = getattr(f, "origin", None) or cfg.by_ast.get(id(f.atom), [])
+                links = _atoms_with_polarity(f.left, True)
+                if at:
+                    links = self._keep_valid(fi, cfg, links, at, site_nodes)
+                    for g in links:
+                        g.origin = at
+                out.extend(links)
+                continue
+            t = _local_test(f)
+            if t is None:
+                continue
+            tested, kind = t
+            tested_at = getattr(f, "origin", None) or cfg.by_ast.get(id(f.atom), [])
+            if isinstance(tested, ast.Call):
+                # the decision is tested where it is taken: `if not self._is_ours(data): return`
+                fs = self._return_facts(fi, tested, kind, None, depth + 1) + _get_implies(tested, kind)
+                if tested_at:
+                    fs = self._keep_valid(fi, cfg, fs, tested_at, site_nodes)
+                    for g in fs:
+                        g.origin = tested_at
+                out.extend(fs)
+                continue
+            name = tested.id
+            if is_param(fi, name) or not local_defs(fi, name):
+                continue
+            if tested_at and not self._unchanged(fi, cfg, {name}, tested_at, site_nodes):
+                continue
+            out.extend(self._behind(fi, cfg, name, kind, site_nodes, depth, tested_at or site_nodes))
+        return out
+
+    # ---- one decision local
+    def _behind(self, fi: FuncInfo, cfg, name: str, kind, site_nodes: list, depth: int, tested_at: list) -> list:
+        alts: list[list] = []
+        defs = local_defs(fi, name)
+        def_nodes = {id(st): cfg.nodes_for(st) for st, _, _ in defs}
+        for stmt, val, idx in defs:
+            dn = def_nodes[id(stmt)]
+            if not dn or not any(cfg.reachable(n) for n in dn):
+                continue
+            # only a definition whose value can still be in the local where it is tested (reaching definition)
+            others = [k for st2, _, _ in defs if st2 is not stmt for k in def_nodes[id(st2)] if k not in dn]
+            r = cfg.reach([v for d in dn for v, lab in d.succ if lab != "exc"], cut_nodes=others)
+            if not any(t in r for t in tested_at):
+                continue
+            here = self.facts(fi, cfg, stmt, depth + 1)
+            leaves = _split_value(val, idx) if val is not None else None
+            if leaves is None:
+                alts.append(self._keep_valid(fi, cfg, here, dn, site_nodes))
+                continue
+            for leaf, lidx, cfs in leaves:
+                verdict = _holds(kind, leaf) if lidx is None else None
+                if verdict is False:
+                    continue
+                fs = list(here) + list(cfs)
+                extra = list(cfs)
+                if lidx is None and kind[0] == "truthy" and isinstance(leaf, (ast.BoolOp, ast.Compare, ast.UnaryOp, ast.Name)):
+                    imp = _atoms_with_polarity(leaf, kind[1])
+                    fs += imp
+                    extra += imp
+                if isinstance(leaf, ast.Call) and verdict is None:
+                    fs += self._return_facts(fi, leaf, kind, lidx, depth + 1)
+                    if lidx is None:
+                        fs += _get_implies(leaf, kind)
+                fs += self.derive(fi, cfg, extra, dn, depth + 1)
+                for g in fs:
+                    if getattr(g, "origin", None) is None and not cfg.by_ast.get(id(g.atom)):
+                        g.origin = dn
+                alts.append(self._keep_valid(fi, cfg, fs, dn, site_nodes))
+        return _common(alts)
+
+    def _keep_valid(self, fi: FuncInfo, cfg, fs: list, dn: list, site_nodes: list) -> list:
+        return [g for g in fs if self._unchanged(fi, cfg, _fact_names(g), dn, site_nodes)]
+
+    def _unchanged(self, fi: FuncInfo, cfg, names: set[str], from_nodes: list, site_nodes: list) -> bool:
+        """None of `names` is (re)bound on a path that leaves from_nodes and arrives at the site without passing from_nodes again."""
+        after = None
+        for nm in names:
+            for stmt, _, _ in local_defs(fi, nm):
+                for k in cfg.nodes_for(stmt):
+                    if k in from_nodes:
+                        continue
+                    if after is None:
+                        after = cfg.reach([v for d in from_nodes for v, _ in d.succ])
+                    if k in after:
+                        r = cfg.reach([v for v, _ in k.succ], cut_nodes=from_nodes)
+                        if any(s in r for s in site_nodes):
+                            return False
+        return True
+
+    # ---- a check performed by a library function that raises when it fails
+    def exit_facts(self, fi: FuncInfo, call: ast.Call, depth: int = 0) -> list:
+        """Facts (in the caller's terms) that hold whenever `call` returns normally: what dominates the normal exit of
+        every possible callee - `self._require(data, end)` that raises unless `end <= len(data)`."""
+        if depth >= self.MAX_DEPTH:
+            return []
+        targets = [t for t in self.repo.resolve_call(fi, call) if not _is_abstract(t)]
+        if not targets or len(targets) > 4:
+            return []
+        alts: list[list] = []
+        for t in targets:
+            if t.is_async or any(isinstance(n, (ast.Yield, ast.YieldFrom)) for n in walk_no_nested(t.node)) \
+                    or any(isinstance(n, ast.Try) and n.finalbody for n in walk_no_nested(t.node)):
+                return []
+            mapping = _bind_args(t, call)
+            if mapping is None:
+                return []
+            tcfg = self.ctx.cfg(t)
+            out = []
+            for g in self.facts(t, tcfg, tcfg.exit, depth + 1):
+                if not self._unchanged(t, tcfg, _fact_names(g) & set(t.params()), [tcfg.entry], [tcfg.exit]):
+                    continue
+                tg = _translate(t, g, mapping)
+                if tg is not None:
+                    out.append(tg)
+            alts.append(out)
+        res = _common(alts)
+        cn = self.ctx.cfg(fi).nodes_for(call)
+        for g in res:
+            g.origin = cn
+        return res
+
+    # ---- a decision returned by a library function
+    def _return_facts(self, fi: FuncInfo, call: ast.Call, kind, idx, depth: int) -> list:
+        if depth >= self.MAX_DEPTH:
+            return []
+        targets = [t for t in self.repo.resolve_call(fi, call) if not _is_abstract(t)]
+        if not targets or len(targets) > 4:
+            return []
+        alts: list[list] = []
+        for t in targets:
+            if t.is_async or isinstance(t.node, ast.Lambda) \
+                    or any(isinstance(n, (ast.Yield, ast.YieldFrom)) for n in walk_no_nested(t.node)) \
+                    or any(isinstance(n, ast.Try) and n.finalbody for n in walk_no_nested(t.node)):
+                return []
+            mapping = _bind_args(t, call)
+            if mapping is None:
+                return []
+            tcfg = self.ctx.cfg(t)
+            live = tcfg.reach()
+            for u, _ in tcfg.exit.pred:
+                if u in live and not (u.kind == "stmt" and isinstance(u.ast, ast.Return)):
+                    if idx is None and _holds(kind, ast.Constant(value=None)) is not False:
+                        return []                      # falling off the end yields None, and None passes the test
+            for r in [n for n in walk_no_nested(t.node) if isinstance(n, ast.Return)]:
+                rn = tcfg.nodes_for(r)
+                if not rn or not any(n in live for n in rn):
+                    continue
+                here = self.facts(t, tcfg, r, depth + 1)
+                leaves = _split_value(r.value if r.value is not None else ast.Constant(value=None), idx)
+                if leaves is None:
+                    leaves = [(None, None, [])]
+                for leaf, lidx, cfs in leaves:
+                    verdict = _holds(kind, leaf) if (leaf is not None and lidx is None) else None
+                    if verdict is False:
+                        continue
+                    fs = list(here) + list(cfs)
+                    extra = list(cfs)
+                    if leaf is not None and lidx is None and kind[0] == "truthy" \
+                            and isinstance(leaf, (ast.BoolOp, ast.Compare, ast.UnaryOp, ast.Name)):
+                        imp = _atoms_with_polarity(leaf, kind[1])
+                        fs += imp
+                        extra += imp
+                    if isinstance(leaf, ast.Call) and verdict is None:
+                        fs += self._return_facts(t, leaf, kind, lidx, depth + 1)
+                    fs += self.derive(t, tcfg, extra, rn, depth + 1)
+                    out = []
+                    for g in fs:
+                        if not self._unchanged(t, tcfg, _fact_names(g) & set(t.params()), [tcfg.entry], rn):
+                            continue                   # speaks about a parameter / local that was rebound before the return
+                        tg = _translate(t, g, mapping)
+                        if tg is not None:
+                            out.append(tg)
+                    alts.append(out)
+        res = _common(alts)
+        cn = self.ctx.cfg(fi).nodes_for(call)
+        for g in res:
+            g.origin = cn
+        return res
+
+
+from ..cfg import Node as _CfgNode  # noqa: E402
+from ..match import Fact, _atoms_with_polarity  # noqa: E402
+from ..model import clone  # noqa: E402
+
+
+def _local_test(f):
+    """(tested expr, kind) when fact f tests a plain local or the result of a call:
+    kind = ("none", x_is_none) | ("truthy", pol) | ("eq", const, pol)."""
+    def subject(e):
+        e = strip_cast(e)
+        return e if isinstance(e, (ast.Name, ast.Call)) else None
+
+    if f.op == "truthy":
+        a = subject(f.left)
+        if a is not None:
+            return a, ("truthy", f.pos)
+    if f.op in ("is", "eq") and f.right is not None:
+        for a, b in ((f.left, f.right), (f.right, f.left)):
+            a = subject(a)
+            if a is not None and isinstance(b, ast.Constant):
+                if b.value is None:
+                    return a, ("none", f.pos)
+                if f.op == "eq" and isinstance(b.value, (str, bytes, int, bool)):
+                    return a, ("eq", b.value, f.pos)
+                if f.op == "is" and isinstance(b.value, bool):
+                    return a, ("eq", b.value, f.pos)
+    return None
+
+
+def _get_implies(call: ast.Call, kind) -> list:
+    """`t.get(k)` (default None) that is not None / truthy: k was a key of t when the lookup was made."""
+    f = call.func
+    if isinstance(f, ast.Attribute) and f.attr == "get" and not call.keywords and 1 <= len(call.args) <= 2 \
+            and not any(isinstance(a, ast.Starred) for a in call.args) \
+            and (len(call.args) == 1 or (isinstance(call.args[1], ast.Constant) and call.args[1].value is None)) \
+            and (kind == ("none", False) or kind == ("truthy", True)):
+        atom = ast.Compare(left=call.args[0], ops=[ast.In()], comparators=[f.value])
+        return [Fact("in", call.args[0], f.value, True, atom)]
+    return []
+
+
+_NEVER_NONE = (ast.Compare, ast.Tuple, ast.List, ast.Dict, ast.Set, ast.JoinedStr, ast.ListComp, ast.DictComp, ast.SetComp,
+               ast.GeneratorExp, ast.Lambda)
+
+
+def _holds(kind, v: ast.AST):
+    """Does a value written as expression v pass the test `kind`?  True / False / None (cannot tell)."""
+    v = strip_cast(v)
+    if isinstance(v, ast.UnaryOp) and isinstance(v.op, ast.Not):
+        known = None if kind[0] != "none" else False
+    elif isinstance(v, ast.Constant):
+        c = v.value
+        if kind[0] == "none":
+            return (c is None) == kind[1]
+        if kind[0] == "truthy":
+            return bool(c) == kind[1]
+        if type(c) is not type(kind[1]) and c == kind[1]:
+            return None                  # 1 == True: leave it open
+        return (c == kind[1]) == kind[2]
+    elif isinstance(v, _NEVER_NONE):
+        known = False if kind[0] == "none" else None
+        if kind[0] == "truthy" and isinstance(v, (ast.Tuple, ast.List, ast.Set)) and not any(isinstance(e, ast.Starred) for e in v.elts):
+            return bool(v.elts) == kind[1]
+    else:
+        return None
+    if known is None:
+        return None
+    return known == kind[1]              # kind "none": known says whether the value is None
+
+
+def _split_value(val: ast.AST, idx):
+    """Leaves of a value expression: [(leaf expr, remaining tuple index | None, facts of the enclosing conditional expressions)]."""
+    val = strip_cast(val)
+    if isinstance(val, ast.IfExp):
+        a, b = _split_value(val.body, idx), _split_value(val.orelse, idx)
+        if a is None or b is None:
+            return None
+        t, f = _atoms_with_polarity(val.test, True), _atoms_with_polarity(val.test, False)
+        return [(l, i, t + c) for l, i, c in a] + [(l, i, f + c) for l, i, c in b]
+    if idx is not None:
+        if isinstance(val, (ast.Tuple, ast.List)) and not any(isinstance(e, ast.Starred) for e in val.elts) and 0 <= idx < len(val.elts):
+            return _split_value(val.elts[idx], None)
+        if isinstance(val, ast.Call):
+            return [(val, idx, [])]
+        return None
+    return [(val, None, [])]
+
+
+def _fact_names(f) -> set[str]:
+    s = names_in(f.left)
+    if f.right is not None:
+        s |= names_in(f.right)
+    return s
+
+
+def _fact_key(f):
+    return (f.op, ast.dump(f.left), ast.dump(f.right) if f.right is not None else None, f.pos)
+
+
+def _common(alts: list[list]) -> list:
+    if not alts:
+        return []
+    keys = [set(_fact_key(g) for g in a) for a in alts]
+    out, seen = [], set()
+    for g in alts[0]:
+        k = _fact_key(g)
+        if k not in seen and all(k in ks for ks in keys[1:]):
+            seen.add(k)
+            out.append(g)
+    return out
+
+
+def _bind_args(t: FuncInfo, call: ast.Call):
+    """parameter name -> argument expression of the caller (`self` -> the receiver); None when the binding is not plain."""
+    a = t.node.args
+    if a.vararg is not None or a.kwarg is not None or any(isinstance(x, ast.Starred) for x in call.args) \
+            or any(k.arg is None for k in call.keywords):
+        return None
+    params = [p.arg for p in a.posonlyargs + a.args]
+    mapping: dict[str, ast.AST] = {}
+    if t.cls is not None and params and params[0] in ("self", "cls") and "staticmethod" not in t.decorator_names():
+        if getattr(call, "_c03_self_bound", False):
+            mapping[params[0]] = ast.Name(id="self", ctx=ast.Load())       # picked from alternatives that are all `self.<method>`
+        elif not isinstance(call.func, ast.Attribute):
+            return None
+        else:
+            mapping[params[0]] = call.func.value
+        params = params[1:]
+    if len(call.args) > len(params):
+        return None
+    for p, x in zip(params, call.args):
+        mapping[p] = x
+    allowed = set(params) | {p.arg for p in a.kwonlyargs}
+    for k in call.keywords:
+        if k.arg not in allowed or k.arg in mapping:
+            return None
+        mapping[k.arg] = k.value
+    pos = a.posonlyargs + a.args
+    for p, d in zip(pos[len(pos) - len(a.defaults):], a.defaults):
+        mapping.setdefault(p.arg, d)
+    for p, d in zip(a.kwonlyargs, a.kw_defaults):
+        if d is not None:
+            mapping.setdefault(p.arg, d)
+    return mapping
+
+
+def _translate(t: FuncInfo, f, mapping: dict):
+    """Fact f of callee t in the caller's terms: parameters -> arguments, single-assignment locals expanded; None if impossible."""
+    ok = [True]
+
+    def tr(e, depth=0):
+        if isinstance(e, ast.Name):
+            if e.id in mapping:
+                return clone(mapping[e.id])
+            if is_param(t, e.id):
+                ok[0] = False
+                return e
+            if local_defs(t, e.id):
+                d = single_def(t, e.id)
+                if d is None or d[1] is not None or depth > 4:
+                    ok[0] = False
+                    return e
+                return tr(clone(d[0]), depth + 1)
+            return e
+        if isinstance(e, (ast.Lambda, ast.ListComp, ast.SetComp, ast.DictComp, ast.GeneratorExp, ast.NamedExpr)):
+            ok[0] = False
+            return e
+        for fld, v in ast.iter_fields(e):
+            if isinstance(v, ast.AST):
+                setattr(e, fld, tr(v, depth))
+            elif isinstance(v, list):
+                setattr(e, fld, [tr(x, depth) if isinstance(x, ast.AST) else x for x in v])
+        return e
+
+    if f is None:
+        return tr, ok
+    left = tr(clone(f.left))
+    right = tr(clone(f.right)) if f.right is not None else None
+    if not ok[0]:
+        return None
+    return Fact(f.op, left, right, f.pos, left)
+
+
+def _translate_expr(t: FuncInfo, e: ast.AST, mapping: dict):
+    tr, ok = _translate(t, None, mapping)
+    out = tr(clone(e))
+    return out if ok[0] else None
+
+
+def _decisions(ctx: Ctx) -> _Decisions:
+    d = ctx.__dict__.get("_c03_decisions_obj")
+    if d is None:
+        d = ctx.__dict__["_c03_decisions_obj"] = _Decisions(ctx)
+    return d
 
 
 # ------------------------------------------------------------------------------------------ region / bounds
@@ -56,12 +485,20 @@ class _Lengths(LengthAnalysis):
     """
 
     _site: ast.AST | None = None
+    decisions: "_Decisions | None" = None
 
     def min_len(self, e: ast.AST, site: ast.AST):
         prev, self._site = self._site, site
         try:
             best, used = super().min_len(e, site)
             e2 = strip_cast(e)
+            if isinstance(e2, ast.Name) and self.decisions is not None:
+                # a length fact established where a decision was taken (`ours = ... and len(x) >= 23`, a helper that
+                # returns the decision): _Decisions only reports it when x is not rebound between the decision and the site
+                for f in self.decisions.derived(self.fi, self.cfg, site):
+                    m = self.fact_min(f, e2.id)
+                    if m > best:
+                        best, used = m, [f"{f} (held where the tested decision was taken)"]
             if isinstance(e2, ast.Name) and not is_param(self.fi, e2.id):
                 d = single_def(self.fi, e2.id)
                 if d is not None and d[1] is None and isinstance(strip_cast(d[0]), ast.Attribute):
@@ -218,14 +655,15 @@ def _check_removals(ctx: Ctx, fi: FuncInfo, cfg, via: str) -> None:
             ctx.instance("removal-guarded", fi.where, f"`{norm(node)[:60]}` inside a handler for {excs[0]}", line=node.lineno)
             continue
         guard = None
-        for f in facts_at(cfg, node):
+        for f in _decisions(ctx).facts(fi, cfg, node):
             if f.op == "in" and f.pos and same_resolved(fi, f.left, key) and _same_container(fi, f.right, cont):
                 guard = f
                 break
         ok = guard is not None
         if ok:
             # the membership fact must still hold: no other removal from the same table between the test and this one
-            gn = cfg.by_ast.get(id(guard.atom), [])
+            # (a fact obtained through a decision local / helper holds from where the decision was taken)
+            gn = getattr(guard, "origin", None) or cfg.by_ast.get(id(guard.atom), [])
             sn = cfg.nodes_for(node)
             others = [k for n2, c2, _, _ in sites if n2 is not node and _same_container(fi, c2, cont) for k in cfg.nodes_for(n2)]
             others += [k for c in calls(fi) if isinstance(c.func, ast.Attribute) and c.func.attr in ("clear", "popitem")
@@ -261,6 +699,7 @@ def rule_bounds(ctx: Ctx) -> None:
         fi = todo.pop()
         cfg = ctx.cfg(fi)
         la = _Lengths(repo, fi, cfg, param_min[fi])
+        la.decisions = _decisions(ctx)
         analysed.add(fi)
         # 1. local sites
         for node, base, need in [*la.index_sites(), *la.unpack_sites()]:
@@ -295,6 +734,8 @@ def rule_bounds(ctx: Ctx) -> None:
             if protected(call, fi):
                 continue
             targets = [t for t in repo.resolve_call(fi, call) if not _is_abstract(t)]
+            if not targets:
+                targets = _callable_targets(repo, fi, call)
             if not targets:
                 targets = _unique_method(repo, call)
             for t in targets:
@@ -342,39 +783,76 @@ def rule_dispatch(ctx: Ctx) -> None:
                                       ("TunnelCommunity", "on_packet_from_circuit", "self.decode_map_private",
                                        "ipv8/messaging/anonymization/community.py")):
         fi = repo.method(clsname, meth, rel)
-        cfg = ctx.cfg(fi)
-        params = fi.params()
-        reads = [n for n in walk_no_nested(fi.node)
-                 if isinstance(n, ast.Subscript) and isinstance(n.ctx, ast.Load) and chain(n.value) == table]
+        # the anchor function plus the methods of its class it delegates to through `self.<helper>(...)`: a lookup / an
+        # invocation that moved into a helper is judged by what holds inside the helper or at every call of the helper
+        region, sites = _self_call_region(repo, fi, stop=set())
+        dec = _decisions(ctx)
+
+        def everywhere(g: FuncInfo, node: ast.AST, holds, depth: int = 0) -> bool:
+            """holds(function, node) here, or at every call site through which the region reaches g."""
+            if holds(g, node):
+                return True
+            if g is fi or depth > 3 or not sites.get(g):
+                return False
+            return all(everywhere(h, c, holds, depth + 1) for h, c in sites[g])
+
+        def table_value(g: FuncInfo, e: ast.AST, depth: int = 0) -> bool:
+            """e denotes (something taken from) the handler table: the table itself, a local assigned from it, a parameter bound to it."""
+            if e is None or depth > 3:
+                return False
+            if _mentions_table(g, e, table):
+                return True
+            e = strip_cast(e)
+            if isinstance(e, ast.Name):
+                if any(v is not None and _mentions_table(g, v, table) for _, v, _ in local_defs(g, e.id)):
+                    return True
+                if g is not fi and is_param(g, e.id) and not local_defs(g, e.id):
+                    for h, c in sites.get(g, []):
+                        m = _bind_args(g, c)
+                        if m is not None and e.id in m and table_value(h, m[e.id], depth + 1):
+                            return True
+            return False
+
+        reads: list[tuple[FuncInfo, ast.AST]] = []
+        for g in region:
+            for n in walk_no_nested(g.node):
+                if isinstance(n, ast.Subscript) and isinstance(n.ctx, ast.Load) and not isinstance(n.slice, ast.Slice) \
+                        and chain(resolve(g, n.value)) == table:
+                    reads.append((g, n))
+                elif isinstance(n, ast.Call) and isinstance(n.func, ast.Attribute) and n.func.attr == "get" \
+                        and chain(resolve(g, n.func.value)) == table:
+                    reads.append((g, n))
         ctx.anchor(reads, f"{table}[...] read in {clsname}.{meth}")
-        for rd in reads:
-            facts = facts_at(cfg, rd)
-            ok = any(_is_prefix_fact(repo, fi, f) for f in facts)
-            ctx.check(ok, "prefix-before-dispatch", fi, rd,
+        for g, rd in reads:
+            shown: list[str] = []
+
+            def has_prefix(h: FuncInfo, node: ast.AST) -> bool:
+                facts = dec.facts(h, ctx.cfg(h), node)
+                shown.extend(str(f) for f in facts)
+                return any(_is_prefix_fact(repo, h, f) for f in facts)
+            ok = everywhere(g, rd, has_prefix)
+            ctx.check(ok, "prefix-before-dispatch", g, rd,
                       f"{clsname}.{meth}: handler lookup dominated by self._prefix == data[:22]",
                       "a datagram whose first 22 bytes are not the overlay's prefix can reach the handler table",
-                      [str(f) for f in facts])
+                      shown)
         # containment: the looked-up handler is called only inside try/except Exception
-        hcalls = []
-        for c in calls(fi):
-            f = c.func
-            if isinstance(f, ast.Name):
-                if any(v is not None and mentions(v, table) for _, v, _ in local_defs(fi, f.id)):
-                    hcalls.append(c)
-            elif mentions(f, table):
-                hcalls.append(c)
+        hcalls = [(g, c) for g in region for c in calls(g) if table_value(g, c.func)
+                  and not (isinstance(c.func, ast.Attribute) and chain(resolve(g, c.func.value)) == table)]   # a dict method of the table itself
         ctx.anchor(hcalls, f"handler invocation in {clsname}.{meth}")
-        for c in hcalls:
-            ctx.check(protected(c, fi), "handler-contained", fi, c,
+        for g, c in hcalls:
+            ctx.check(everywhere(g, c, lambda h, n: protected(n, h)), "handler-contained", g, c,
                       f"{clsname}.{meth}: handler invoked inside try/except Exception",
                       "an exception raised by a message handler escapes to the transport")
         # coroutine results registered with ignore=(Exception,)
-        for c in calls(fi, "self.register_anonymous_task"):
-            ig = arg(c, None, "ignore")
-            ig = resolve(fi, ig) if ig is not None else None
-            ok = ig is not None and isinstance(ig, (ast.Tuple, ast.List, ast.Set)) and any(chain(e) == "Exception" for e in ig.elts)
-            ctx.check(ok, "handler-contained", fi, c, f"{clsname}.{meth}: coroutine handler registered with ignore=(Exception,)",
-                      "exceptions of coroutine handlers are not ignored by the task manager")
+        for g in region:
+            if g is not fi and g.name == "register_anonymous_task":
+                continue
+            for c in calls(g, "self.register_anonymous_task"):
+                ig = arg(c, None, "ignore")
+                ig = resolve(g, ig) if ig is not None else None
+                ok = ig is not None and isinstance(ig, (ast.Tuple, ast.List, ast.Set)) and any(chain(e) == "Exception" for e in ig.elts)
+                ctx.check(ok, "handler-contained", g, c, f"{clsname}.{meth}: coroutine handler registered with ignore=(Exception,)",
+                          "exceptions of coroutine handlers are not ignored by the task manager")
     # _prefix is 22 bytes: b"\x00" + version(1) + community_id(20)  (C03 relies on the comparison length)
     init = repo.method("Community", "__init__", "ipv8/community.py")
     st = [s for s, t in _stores(init, "self._prefix")]
@@ -387,29 +865,224 @@ def rule_dispatch(ctx: Ctx) -> None:
                   "the overlay prefix is no longer the 22-byte 0x00|version|community_id")
     # Endpoint.notify_listeners selects by prefix map
     nl = repo.method("Endpoint", "notify_listeners", "ipv8/messaging/interfaces/endpoint.py")
-    cfg = ctx.cfg(nl)
     pkt = nl.params()[1]
-    # every lookup in the prefix map (dict.get with a default, or a subscript guarded by a membership test)
-    lookups: list[tuple[ast.AST, ast.AST, ast.AST | None]] = []       # (node, key, default | None)
-    for n in walk_no_nested(nl.node):
-        if isinstance(n, ast.Call) and isinstance(n.func, ast.Attribute) and n.func.attr == "get" and _is_pmap(nl, n.func.value):
-            lookups.append((n, arg(n, 0), arg(n, 1, "default")))
-        if isinstance(n, ast.Subscript) and isinstance(n.ctx, ast.Load) and _is_pmap(nl, n.value):
-            lookups.append((n, n.slice, None))
+    nregion, nsites = _self_call_region(repo, nl, stop={"_deliver_later"})
+    nregion = [g for g in nregion if g is nl or g.name != "_deliver_later"]
+    dec = _decisions(ctx)
+    # every lookup in the prefix map (dict.get, or a subscript), in notify_listeners or a helper it delegates to
+    lookups: list[tuple[FuncInfo, ast.AST, ast.AST, ast.AST | None]] = []       # (function, node, key, default | None)
+    for g in nregion:
+        for n in walk_no_nested(g.node):
+            if isinstance(n, ast.Call) and isinstance(n.func, ast.Attribute) and n.func.attr == "get" and _is_pmap(g, n.func.value):
+                lookups.append((g, n, arg(n, 0), arg(n, 1, "default")))
+            if isinstance(n, ast.Subscript) and isinstance(n.ctx, ast.Load) and _is_pmap(g, n.value):
+                lookups.append((g, n, n.slice, None))
     ctx.anchor(lookups, "_prefix_map.get in Endpoint.notify_listeners")
-    for node, k, default in lookups:
-        ok = k is not None and _is_datagram_prefix(nl, k, pkt)
-        ctx.check(ok, "prefix-before-dispatch", nl, node, "listeners selected by packet[1][:prefixlen]",
+    # what the delivery loops iterate over: all values that can flow into the iterable of a loop
+    loops: list[tuple[FuncInfo, ast.AST, list]] = []
+    for g in nregion:
+        for l in walk_no_nested(g.node):
+            if isinstance(l, (ast.For, ast.AsyncFor, ast.comprehension)):
+                loops.append((g, l, _value_leaves(repo, g, l.iter, nregion)))
+
+    def kind_of(h: FuncInfo, e) -> str:
+        if e is None:
+            return "unknown"
+        if any(e is n for _, n, _, _ in lookups):
+            return "lookup"
+        if isinstance(e, ast.Constant) and e.value is None:
+            return "none"
+        return "generic" if chain(resolve(h, e)) == "self._listeners" else "other"
+
+    delivery = [(g, l, lv) for g, l, lv in loops if any(kind_of(h, e) in ("lookup", "generic") for h, e in lv)]
+    generic_somewhere = any(kind_of(h, e) == "generic" for _, _, lv in delivery for h, e in lv)
+    for g, node, k, default in lookups:
+        cfg = ctx.cfg(g)
+        keys = _in_root_terms(g, k, nl, nsites) if k is not None else []
+        ok = bool(keys) and all(_is_datagram_prefix(nl, kk, pkt) for kk in keys)
+        ctx.check(ok, "prefix-before-dispatch", g, node, "listeners selected by packet[1][:prefixlen]",
                   "endpoint demultiplexing no longer keys on the datagram's first prefixlen bytes")
+        mine = [(lg, l, lv) for lg, l, lv in delivery if any(e is node for _, e in lv)]
+        # whatever else can be delivered to by the loops this lookup feeds is a prefix-map lookup or the generic list
+        flows = bool(mine) and all(kind_of(h, e) in ("lookup", "generic") or (kind_of(h, e) == "none" and _none_never_used(h, ctx.cfg(h), e))
+                                   for _, _, lv in mine for h, e in lv)
         if isinstance(node, ast.Call):
-            ok2 = default is not None and chain(resolve(nl, default)) == "self._listeners"
+            d = resolve(g, default) if default is not None else None
+            if d is not None and not (isinstance(d, ast.Constant) and d.value is None):
+                ok2 = chain(d) == "self._listeners" and flows
+            else:
+                # .get(key) yields None for an unknown prefix: None must be replaced (by the generic list) before any use
+                ok2 = flows and generic_somewhere and _none_never_used(g, cfg, node)
         else:
-            # map[key] is only evaluated when `key in map` holds, and whatever is delivered to instead is the generic list
-            ok2 = any(f.op == "in" and f.pos and _is_pmap(nl, f.right) and _is_datagram_prefix(nl, f.left, pkt)
-                      for f in facts_at(cfg, node)) and _fallback_is_generic(nl, node)
-        ctx.check(ok2, "prefix-before-dispatch", nl, node,
+            # map[key] is only evaluated when `key in map` holds or its KeyError is handled on the spot, and whatever is
+            # delivered to instead is the generic list
+            guarded = any(f.op == "in" and f.pos and _is_pmap(g, f.right) and same_resolved(g, f.left, k)
+                          for f in dec.facts(g, cfg, node)) or _handled(node, g, ("KeyError", "LookupError"))
+            ok2 = guarded and flows and generic_somewhere
+        ctx.check(ok2, "prefix-before-dispatch", g, node,
                   "unknown prefixes fall back to the non-prefix listeners only",
                   "datagrams with an unknown prefix are delivered to something other than the generic listeners")
+
+
+def _value_leaves(repo, fi: FuncInfo, e: ast.AST, region: list, seen: set | None = None, depth: int = 0) -> list:
+    """
+    Every expression whose value can be the value of e: through all definitions of locals, both arms of conditional
+    expressions, the operands of and/or, list()/tuple()/iter() copies and the return values of helpers of the region.
+    [(function, leaf expr | None for an unknown source)]
+    """
+    seen = set() if seen is None else seen
+    e = strip_cast(e)
+    if depth > 8:
+        return [(fi, None)]
+    if isinstance(e, ast.Call) and chain(e.func) in ("list", "tuple", "iter") and len(e.args) == 1 and not e.keywords \
+            and not isinstance(e.args[0], ast.Starred):
+        return _value_leaves(repo, fi, e.args[0], region, seen, depth + 1)
+    if isinstance(e, ast.IfExp):
+        return _value_leaves(repo, fi, e.body, region, seen, depth + 1) + _value_leaves(repo, fi, e.orelse, region, seen, depth + 1)
+    if isinstance(e, ast.BoolOp):
+        return [x for v in e.values for x in _value_leaves(repo, fi, v, region, seen, depth + 1)]
+    if isinstance(e, ast.NamedExpr):
+        return _value_leaves(repo, fi, e.value, region, seen, depth + 1)
+    if isinstance(e, ast.Name) and not is_param(fi, e.id):
+        defs = local_defs(fi, e.id)
+        if not defs:
+            return [(fi, e)]
+        if (fi, e.id) in seen:
+            return []
+        seen.add((fi, e.id))
+        out = []
+        for _, val, idx in defs:
+            if val is None:
+                out.append((fi, None))
+            elif idx is not None:
+                v = strip_cast(val)
+                if isinstance(v, (ast.Tuple, ast.List)) and 0 <= idx < len(v.elts) and not any(isinstance(x, ast.Starred) for x in v.elts):
+                    out.extend(_value_leaves(repo, fi, v.elts[idx], region, seen, depth + 1))
+                else:
+                    out.append((fi, None))
+            else:
+                out.extend(_value_leaves(repo, fi, val, region, seen, depth + 1))
+        return out
+    if isinstance(e, ast.Call) and isinstance(e.func, ast.Attribute) and isinstance(e.func.value, ast.Name) and e.func.value.id == "self":
+        targets = [t for t in repo.resolve_call(fi, e) if t in region and t is not fi]
+        if len(targets) == 1 and not targets[0].is_async:
+            t = targets[0]
+            rets = [r for r in walk_no_nested(t.node) if isinstance(r, ast.Return) and r.value is not None]
+            yields = [n for n in walk_no_nested(t.node) if isinstance(n, (ast.Yield, ast.YieldFrom))]
+            if rets and not yields:
+                return [x for r in rets for x in _value_leaves(repo, t, r.value, region, seen, depth + 1)]
+            if yields and not rets:
+                # a generator helper: iterating its result iterates what it yields from / the loops whose items it yields
+                out = []
+                for y in yields:
+                    if isinstance(y, ast.YieldFrom):
+                        out.extend(_value_leaves(repo, t, y.value, region, seen, depth + 1))
+                        continue
+                    src = None
+                    if isinstance(y.value, ast.Name):
+                        for a in _ancestors_until(y, t.node):
+                            if isinstance(a, (ast.For, ast.AsyncFor)) and isinstance(a.target, ast.Name) and a.target.id == y.value.id:
+                                src = a.iter
+                                break
+                    out.extend(_value_leaves(repo, t, src, region, seen, depth + 1) if src is not None else [(t, None)])
+                return out
+    return [(fi, e)]
+
+
+def _in_root_terms(g: FuncInfo, e: ast.AST, root: FuncInfo, sites: dict, depth: int = 0) -> list:
+    """Expression e of helper g written in terms of root's names, once per chain of call sites from root to g ([] = cannot)."""
+    if g is root:
+        return [e]
+    if depth > 2 or not sites.get(g):
+        return []
+    out = []
+    for h, c in sites[g]:
+        m = _bind_args(g, c)
+        if m is None:
+            return []
+        te = _translate_expr(g, e, m)
+        if te is None:
+            return []
+        up = _in_root_terms(h, te, root, sites, depth + 1)
+        if not up:
+            return []
+        out.extend(up)
+    return out
+
+
+def _none_never_used(fi: FuncInfo, cfg, call: ast.Call) -> bool:
+    """
+    The possibly-None result of `call` is never used as a value while it can still be None: it is only tested
+    (`is None`, truthiness, left operand of `or`) until it has been replaced.  Decided on the CFG under the
+    assumption "the local is None": branch edges that contradict it are not taken, other definitions end the search.
+    """
+    p = parent(call)
+    cur: ast.AST = call
+    while isinstance(p, ast.Call) and chain(p.func) == "cast":
+        cur, p = p, parent(p)
+    if isinstance(p, ast.BoolOp) and isinstance(p.op, ast.Or) and p.values[-1] is not cur:
+        return True                                  # `map.get(k) or generic`: None is never the result
+    if isinstance(p, ast.NamedExpr):
+        name = p.target.id
+        dstmt = enclosing_stmt(p)
+    elif isinstance(p, (ast.Assign, ast.AnnAssign)) and p.value is cur:
+        tg = p.targets[0] if isinstance(p, ast.Assign) and len(p.targets) == 1 else getattr(p, "target", None)
+        if not isinstance(tg, ast.Name):
+            return False
+        name, dstmt = tg.id, p
+    else:
+        return False
+    dn = cfg.nodes_for(dstmt)
+    others = [k for st, _, _ in local_defs(fi, name) if st is not dstmt for k in cfg.nodes_for(st)]
+
+    def is_none_fact(f) -> bool | None:
+        """what fact f says about `name is None` (None: nothing)"""
+        if f.op == "truthy" and isinstance(f.left, ast.Name) and f.left.id == name:
+            return False if f.pos else None
+        if f.op in ("is", "eq") and f.right is not None:
+            for a, b in ((f.left, f.right), (f.right, f.left)):
+                if isinstance(a, ast.Name) and a.id == name and isinstance(b, ast.Constant) and b.value is None:
+                    return f.pos
+        return None
+
+    def cut(u, v, lab):
+        if u.kind == "cond" and lab in (True, False) and u.ast is not None:
+            return is_none_fact(fact_of(u.ast, lab)) is False
+        return False
+    r = cfg.reach([v for d in dn for v, lab in d.succ if lab != "exc"], cut_edge=cut, cut_out_normal=others)
+    for u in walk_no_nested(fi.node):
+        if not (isinstance(u, ast.Name) and u.id == name and isinstance(u.ctx, ast.Load)):
+            continue
+        up = parent(u)
+        if isinstance(up, ast.Compare) and len(up.ops) == 1 and isinstance(up.ops[0], (ast.Is, ast.IsNot, ast.Eq, ast.NotEq)) \
+                and any(isinstance(x, ast.Constant) and x.value is None for x in (up.left, up.comparators[0])):
+            continue                                 # the None test itself
+        if isinstance(up, ast.BoolOp) and up.values[-1] is not u:
+            continue                                 # truth test
+        if isinstance(up, ast.UnaryOp) and isinstance(up.op, ast.Not):
+            continue
+        if isinstance(up, (ast.If, ast.While, ast.IfExp)) and up.test is u:
+            continue
+        if isinstance(up, ast.BoolOp) and isinstance(parent(up), (ast.If, ast.While, ast.IfExp)) and parent(up).test is up:
+            continue                                 # last operand of a test: only its truth value is used
+        from ..match import expr_context_facts
+        if any(is_none_fact(f) is False for f in expr_context_facts(u)):
+            continue
+        if any(n in r for n in cfg.nodes_for(u)):
+            return False
+    return True
+
+
+def _mentions_table(g: FuncInfo, e: ast.AST, table: str) -> bool:
+    """e contains the table expression (spelled out, or through a local alias `t = self.decode_map`)."""
+    if mentions(e, table):
+        return True
+    for n in ast.walk(e):
+        if isinstance(n, ast.Name) and not is_param(g, n.id):
+            r = resolve(g, n)
+            if r is not n and chain(r) == table:
+                return True
+    return False
 
 
 def _is_prefix_fact(repo, fi: FuncInfo, f) -> bool:
@@ -420,19 +1093,19 @@ def _is_prefix_fact(repo, fi: FuncInfo, f) -> bool:
 
     def is_head(e):
         e = resolve(fi, e)
-        if not (isinstance(e, ast.Subscript) and isinstance(e.slice, ast.Slice) and e.slice.step is None and isinstance(e.value, ast.Name)):
+        if not (isinstance(e, ast.Subscript) and isinstance(e.slice, ast.Slice) and e.slice.step is None):
             return False
         lo, up = e.slice.lower, e.slice.upper
         if lo is not None and repo.resolve_const(fi.module, lo, fi.cls) != 0:
             return False
-        return up is not None and repo.resolve_const(fi.module, up, fi.cls) == 22 and _is_packet_bytes(fi, e.value.id)
+        return up is not None and repo.resolve_const(fi.module, up, fi.cls) == 22 and _is_bytes_expr(repo, fi, e.value)
 
     if f.op == "eq" and f.pos and f.right is not None:
         return (is_own_prefix(f.left) and is_head(f.right)) or (is_own_prefix(f.right) and is_head(f.left))
     if f.op == "truthy" and f.pos:
         c = resolve(fi, f.left)
         if isinstance(c, ast.Call) and isinstance(c.func, ast.Attribute) and c.func.attr == "startswith" and len(c.args) == 1 \
-                and not c.keywords and isinstance(c.func.value, ast.Name) and _is_packet_bytes(fi, c.func.value.id):
+                and not c.keywords and _is_bytes_expr(repo, fi, c.func.value):
             return is_own_prefix(c.args[0])
     return False
 
@@ -445,6 +1118,11 @@ def _concat_parts(fi: FuncInfo, v: ast.AST) -> list[ast.AST]:
     v = resolve(fi, v)
     if isinstance(v, ast.BinOp) and isinstance(v.op, ast.Add):
         return _concat_parts(fi, v.left) + _concat_parts(fi, v.right)
+    if isinstance(v, ast.Call) and isinstance(v.func, ast.Attribute) and v.func.attr == "join" and len(v.args) == 1 and not v.keywords \
+            and isinstance(v.func.value, ast.Constant) and v.func.value.value == b"":
+        seq = resolve(fi, v.args[0])
+        if isinstance(seq, (ast.Tuple, ast.List)) and not any(isinstance(e, ast.Starred) for e in seq.elts):
+            return [p for e in seq.elts for p in _concat_parts(fi, e)]       # b"".join((a, b, c)) == a + b + c
     return [v]
 
 
@@ -529,6 +1207,17 @@ def _stores(fi: FuncInfo, target: str):
                     yield n, t
 
 
+def _is_bytes_expr(repo, fi: FuncInfo, e: ast.AST) -> bool:
+    """e is a bytes value of fi: a bytes-typed name, or the bytes element of the (address, data) packet written out as `packet[1]`."""
+    from ..lengths import BytesTyper
+    e = strip_cast(e)
+    if isinstance(e, ast.Name):
+        return _is_packet_bytes(fi, e.id)
+    if isinstance(e, ast.Subscript) and not isinstance(e.slice, ast.Slice) and isinstance(strip_cast(e.value), ast.Name):
+        return BytesTyper(repo, fi).is_bytes(e)
+    return False
+
+
 def _is_packet_bytes(fi: FuncInfo, name: str) -> bool:
     from ..lengths import BytesTyper
     return BytesTyper(None, fi).is_bytes(ast.Name(id=name, ctx=ast.Load()))  # type: ignore[arg-type]
@@ -578,10 +1267,41 @@ def rule_length_honoured(ctx: Ctx) -> None:
                       f"{c.name}.unpack: wire length in `{norm(sl)}` is checked against the buffer ({how})",
                       f"{c.name}.unpack slices `{norm(sl)}` with a wire-supplied length that is never compared with "
                       "len(data): a truncated message is silently accepted and the returned offset lies outside the buffer")
+        # the slice may have moved into a helper that receives the buffer: `self._take(data, start, end)`.  It is the same
+        # instance when the slice end, written in the caller's terms, depends on a wire value; it is honoured when the helper
+        # itself bounds it on every path to the slice, or the caller did before the call.
+        for call in calls(fi):
+            if call_name(call) in ("unpack", "unpack_from", "len", "unpack_serializable", "unpack_serializable_list") \
+                    or not any(isinstance(a, ast.Name) and a.id == data for a in [*call.args, *[k.value for k in call.keywords]]):
+                continue
+            targets = [t for t in ctx.repo.resolve_call(fi, call) if not _is_abstract(t)]
+            for t in targets:
+                m = _bind_args(t, call)
+                if m is None:
+                    continue
+                bufs = [p_ for p_, a in m.items() if isinstance(a, ast.Name) and a.id == data and not local_defs(t, p_)]
+                for sl in [x for x in walk_no_nested(t.node) if isinstance(x, ast.Subscript) and isinstance(x.slice, ast.Slice)
+                           and isinstance(x.value, ast.Name) and x.value.id in bufs and x.slice.upper is not None]:
+                    up = _translate_expr(t, sl.slice.upper, m)
+                    t_wire = any(isinstance(x, ast.Call) and chain(x.func) in ("unpack_from", "struct.unpack_from")
+                                 for nm in names_in(sl.slice.upper) for _, v, _ in local_defs(t, nm) if v is not None for x in ast.walk(v))
+                    if not t_wire and (up is None or not (names_in(up) & wire)):
+                        continue
+                    n += 1
+                    ok = _end_bounded_on_every_path(ctx, t, ctx.cfg(t), sl, sl.value.id, pm_cls=c, symbolic_params=True)
+                    how = f"inside {t.qualname}"
+                    if not ok and up is not None and len(targets) == 1:
+                        ok = _end_bounded_on_every_path(ctx, fi, cfg, call, data, upper=up)
+                        how = f"before the call of {t.qualname}"
+                    ctx.check(ok, "length-honoured", fi, call,
+                              f"{c.name}.unpack: wire length in `{norm(sl)}` of {t.qualname} is checked against the buffer ({how})",
+                              f"{c.name}.unpack hands a wire-supplied length to {t.qualname}, which slices `{norm(sl)}` without it ever being "
+                              "compared with the buffer length: a truncated message is silently accepted and the returned offset lies outside the buffer")
     ctx.floor("length-honoured", n, 4)
 
 
-def _end_bounded_on_every_path(ctx: Ctx, fi: FuncInfo, cfg, sl: ast.Subscript, data: str) -> bool:
+def _end_bounded_on_every_path(ctx: Ctx, fi: FuncInfo, cfg, sl: ast.AST, data: str, *, upper: ast.AST | None = None,
+                               pm_cls=None, symbolic_params: bool = False) -> bool:
     """
     Idiom 1, decided on the CFG: on every path from the entry to the slice, some branch condition taken on the way
     implies  len(data) >= END  where END is exactly the slice's upper bound.  Both are compared as integer linear forms
@@ -590,13 +1310,75 @@ def _end_bounded_on_every_path(ctx: Ctx, fi: FuncInfo, cfg, sl: ast.Subscript, d
     into locals) does not matter, while a check of the raw item count before it is scaled to bytes does not count.
     """
     from .c02_packers import Lin, PackerModel, UnpackRun, Unknown
-    pm = PackerModel(ctx, fi.cls)
+    pm = PackerModel(ctx, pm_cls if pm_cls is not None else fi.cls)
     site = set(cfg.nodes_for(sl))
     if not site:
         return False
+    upper = sl.slice.upper if upper is None else upper
+
+    class HelperRun(UnpackRun):
+        """the same symbolic run for a helper that received the buffer: every other parameter is an unknown integer"""
+        def __init__(self, pm_, fi_) -> None:
+            ps = fi_.params()
+
+            class Padded:                      # UnpackRun's own initialisation expects (self, data, offset, ...)
+                def __getattr__(self, nm):
+                    return getattr(fi_, nm)
+
+                def params(self):
+                    return [*ps, "", "", ""]
+            super().__init__(pm_, Padded())
+            self.fi = fi_
+            self.data, self.off = data, None
+            self.env = {p_: Lin.sym(f"w:{p_}") for p_ in ps if p_ not in (data, "self", "cls")}
+    make_run = HelperRun if symbolic_params else UnpackRun
     length = Lin.sym("len(data)")
     n_paths = 0
     seen_prefix = set()
+    dec = _decisions(ctx)
+
+    def implied(bounds, d) -> bool:
+        """the recorded bounds imply d >= 0"""
+        for d0, k in bounds:
+            c = d0 - d
+            if not c.t and k - c.c >= 0:
+                return True
+        return False
+
+    def lin2(run, e, bounds):
+        """run.lin, plus `len(data[a:])` = len(data) - a where a <= len(data) is already established on this path"""
+        try:
+            return run.lin(e)
+        except Unknown:
+            e = strip_cast(e)
+            if isinstance(e, ast.BinOp) and isinstance(e.op, (ast.Add, ast.Sub)):
+                l, r = lin2(run, e.left, bounds), lin2(run, e.right, bounds)
+                return l + r if isinstance(e.op, ast.Add) else l - r
+            if isinstance(e, ast.Call) and chain(e.func) == "len" and len(e.args) == 1:
+                a = strip_cast(e.args[0])
+                if isinstance(a, ast.Subscript) and isinstance(a.slice, ast.Slice) and a.slice.step is None and a.slice.upper is None \
+                        and isinstance(a.value, ast.Name) and a.value.id == data and a.slice.lower is not None:
+                    lo = run.lin(a.slice.lower)
+                    if implied(bounds, length - lo):
+                        return length - lo
+            raise
+
+    def add_bounds(run, facts, bounds) -> None:
+        for f in facts:
+            if f.op == "truthy" and f.pos and isinstance(f.left, ast.Compare) and len(f.left.ops) > 1:
+                add_bounds(run, _atoms_with_polarity(f.left, True), bounds)      # a <= b <= c: both links
+                continue
+            if f.right is None or f.op not in ("lt", "eq"):
+                continue
+            try:
+                l, r = lin2(run, f.left, bounds), lin2(run, f.right, bounds)
+            except Unknown:
+                continue
+            if f.op == "lt":
+                bounds.append((r - l, 1) if f.pos else (l - r, 0))
+            elif f.pos:
+                bounds.append((l - r, 0))
+                bounds.append((r - l, 0))
     for path in cfg.paths(limit=3000):
         idx = next((i for i, (n, _) in enumerate(path) if n in site), None)
         if idx is None:
@@ -606,7 +1388,7 @@ def _end_bounded_on_every_path(ctx: Ctx, fi: FuncInfo, cfg, sl: ast.Subscript, d
             continue
         seen_prefix.add(key)
         n_paths += 1
-        run = UnpackRun(pm, fi)
+        run = make_run(pm, fi)
         bounds: list[tuple[Lin, int]] = []                 # D >= k
         for node, lab in path[:idx]:
             if node.ast is None:
@@ -618,26 +1400,28 @@ def _end_bounded_on_every_path(ctx: Ctx, fi: FuncInfo, cfg, sl: ast.Subscript, d
                 if stored:
                     bounds = [(d, k) for d, k in bounds if not any(f"w:{nm}" in sym.replace("*", " ").split() or sym.startswith(f"w:{nm}*")
                                                                     for sym in d.t for nm in stored)]
+                n_reads = len(run.reads)
                 try:
                     run.stmt(node.ast)
                 except Unknown:
                     for nm in stored:
                         run.env.pop(nm, None)
+                if lab != "exc":
+                    # a fixed-format unpack_from that returned: the buffer reaches to the end of what it read
+                    for start, size, what in run.reads[n_reads:]:
+                        if isinstance(what, str) and what.startswith("struct:"):
+                            bounds.append((length - (start + size), 0))
+                    # a helper that received the buffer and returned normally: what its normal exit guarantees
+                    for c in [x for x in walk_no_nested(node.ast) if isinstance(x, ast.Call)]:
+                        if any(isinstance(a, ast.Name) and a.id == data for a in [*c.args, *[k.value for k in c.keywords]]) \
+                                and call_name(c) not in ("unpack", "unpack_from", "len"):
+                            add_bounds(run, dec.exit_facts(fi, c), bounds)
             elif node.kind == "cond" and lab in (True, False):
                 f = fact_of(node.ast, lab)
-                if f.right is None or f.op not in ("lt", "eq"):
-                    continue
-                try:
-                    l, r = run.lin(f.left), run.lin(f.right)
-                except Unknown:
-                    continue
-                if f.op == "lt":
-                    bounds.append((r - l, 1) if f.pos else (l - r, 0))
-                elif f.pos:
-                    bounds.append((l - r, 0))
-                    bounds.append((r - l, 0))
+                # the branch fact itself, and what it implies when it tests a decision (a local / a helper's verdict)
+                add_bounds(run, [f, *dec.derive(fi, cfg, [f], list(site), 0)], bounds)
         try:
-            target = length - run.lin(sl.slice.upper)
+            target = length - run.lin(upper)
         except Unknown:
             return False
         ok = False
@@ -739,22 +1523,48 @@ def rule_consume_all(ctx: Ctx) -> None:
     repo = ctx.repo
     fi = repo.method("Serializer", "unpack_serializable_list", SER)
     cfg = ctx.cfg(fi)
-    raises = [n for n in walk_no_nested(fi.node) if isinstance(n, ast.Raise)]
-    ok = False
-    for r in raises:
-        fs = facts_at(cfg, r)
-        has_rem = any(_remainder_nonempty(fi, f, "data", "offset") for f in fs)
-        has_consume = any(_flag_set(f, "consume_all") for f in fs)
-        if has_rem and has_consume and _is_pack_error(fi, r.exc):
-            ok = True
-    ctx.check(ok, "consume-all", fi, fi.node, "unpack_serializable_list raises PackError on a non-empty remainder when consume_all",
-              "trailing bytes after the last payload are accepted although consume_all is set")
-    # the offset that delimits the remainder is the one threaded through unpack_serializable
+    # the raise may live in a helper (`self._ensure_consumed(data, offset)` called when consume_all): what holds at the raise is
+    # what holds inside the helper, written in this function's terms, plus what holds at the call of the helper
+    lregion, lsites = _self_call_region(repo, fi, stop={"unpack_serializable", "unpack_serializable_list"})
+    dec = _decisions(ctx)
+    # the offset that delimits the remainder is the one threaded through unpack_serializable: normally the `offset` parameter
+    # itself, possibly a local that starts as a copy of it (`pos = offset`) - identified by its role, not by its name
     loop_calls = calls(fi, "self.unpack_serializable")
     ctx.anchor(loop_calls, "unpack_serializable call in unpack_serializable_list")
+    thr = "offset"
+    names = {a.id for a in (arg(c, 2, "offset") for c in loop_calls) if isinstance(a, ast.Name)}
+    if len(names) == 1 and "offset" not in names:
+        cand = next(iter(names))
+        results = {id(enclosing_stmt(c)) for c in loop_calls}
+        fed_by_results = {st_.targets[0].id for st_ in walk_no_nested(fi.node) if isinstance(st_, ast.Assign) and len(st_.targets) == 1
+                          and isinstance(st_.targets[0], ast.Name) and id(st_) in results}
+        ds = local_defs(fi, cand)
+
+        def start_or_result(st_, v) -> bool:
+            if id(st_) in results:
+                return True
+            v = strip_cast(v) if v is not None else None
+            if chain(v) == "offset" and not local_defs(fi, "offset"):
+                return True                   # the copy of the parameter the threading starts from
+            return isinstance(v, ast.Subscript) and isinstance(v.value, ast.Name) and v.value.id in fed_by_results \
+                and const_value(v.slice) == 1     # offset part of a stored (payload, offset) result
+        if ds and not is_param(fi, cand) and all(start_or_result(st_, v) for st_, v, _ in ds):
+            thr = cand
+    ok = False
+    for g in lregion:
+        for r in [n for n in walk_no_nested(g.node) if isinstance(n, ast.Raise)]:
+            if not _is_pack_error(g, r.exc):
+                continue
+            for fs in _facts_in_root_terms(ctx, dec, g, r, fi, lsites):
+                has_rem = any(_remainder_nonempty(fi, f, "data", thr) for f in fs)
+                has_consume = any(_flag_set(f, "consume_all") for f in fs)
+                if has_rem and has_consume:
+                    ok = True
+    ctx.check(ok, "consume-all", fi, fi.node, "unpack_serializable_list raises PackError on a non-empty remainder when consume_all",
+              "trailing bytes after the last payload are accepted although consume_all is set")
     for c in loop_calls:
         st = enclosing_stmt(c)
-        ok = chain(arg(c, 2, "offset")) == "offset" and chain(arg(c, 1, "data")) == "data" and _offset_rebound(fi, cfg, c, st)
+        ok = chain(arg(c, 2, "offset")) == thr and chain(resolve(fi, arg(c, 1, "data"))) == "data" and _offset_rebound(fi, cfg, c, st, thr)
         ctx.check(ok, "consume-all", fi, st, "offset threaded through every unpack_serializable call",
                   "the end offset returned by unpack_serializable is not the one used for the next payload / remainder")
     # unpack_serializable: generic packer exceptions converted to PackError.  The conversion may live in private helpers
@@ -786,22 +1596,132 @@ def rule_consume_all(ctx: Ctx) -> None:
                       "a packer is invoked outside the try that converts its exceptions")
 
 
-def _offset_rebound(fi: FuncInfo, cfg, c: ast.Call, st: ast.AST) -> bool:
-    """The second element of the (payload, offset) result of call c is stored back into `offset`."""
+def _facts_in_root_terms(ctx: Ctx, dec: "_Decisions", g: FuncInfo, site: ast.AST, root: FuncInfo, sites: dict, depth: int = 0) -> list:
+    """One list of facts per chain of call sites from root to g: the facts at `site` in g with g's parameters replaced by
+    the arguments, together with the facts at the call site (recursively up to root)."""
+    here = dec.facts(g, ctx.cfg(g), site)
+    if g is root:
+        return [list(here)]
+    if depth > 2 or not sites.get(g):
+        return []
+    out = []
+    for h, c in sites[g]:
+        m = _bind_args(g, c)
+        mine = []
+        if m is not None:
+            gcfg = ctx.cfg(g)
+            sn = gcfg.nodes_for(site)
+            for f in here:
+                if dec._unchanged(g, gcfg, _fact_names(f) & set(g.params()), [gcfg.entry], sn):
+                    tf = _translate(g, f, m)
+                    if tf is not None:
+                        mine.append(tf)
+        for up in _facts_in_root_terms(ctx, dec, h, c, root, sites, depth + 1):
+            # the helper's facts were written with h's names: bring them up the same chain
+            out.append(_lift(ctx, dec, h, mine, root, sites, depth + 1) + up)
+    return out
+
+
+def _lift(ctx: Ctx, dec: "_Decisions", h: FuncInfo, facts: list, root: FuncInfo, sites: dict, depth: int) -> list:
+    if h is root:
+        return list(facts)
+    if depth > 2 or len(sites.get(h, [])) != 1:
+        return []
+    h2, c2 = sites[h][0]
+    m = _bind_args(h, c2)
+    if m is None:
+        return []
+    up = [tf for tf in (_translate(h, f, m) for f in facts) if tf is not None]
+    return _lift(ctx, dec, h2, up, root, sites, depth + 1)
+
+
+def _offset_rebound(fi: FuncInfo, cfg, c: ast.Call, st: ast.AST, off: str = "offset") -> bool:
+    """The second element of the (payload, offset) result of call c is stored back into the threaded offset `off`."""
     if not isinstance(st, ast.Assign) or len(st.targets) != 1 or strip_cast(st.value) is not c:
         return False
     tg = st.targets[0]
     if isinstance(tg, (ast.Tuple, ast.List)):
-        return len(tg.elts) == 2 and chain(tg.elts[1]) == "offset"
+        return len(tg.elts) == 2 and chain(tg.elts[1]) == off
     if isinstance(tg, ast.Name):
         # res = self.unpack_serializable(...); ...; offset = res[1]   on every path that goes on
-        later = [s for s in walk_no_nested(fi.node) if isinstance(s, ast.Assign) and len(s.targets) == 1 and chain(s.targets[0]) == "offset"
+        later = [s for s in walk_no_nested(fi.node) if isinstance(s, ast.Assign) and len(s.targets) == 1 and chain(s.targets[0]) == off
                  and isinstance(strip_cast(s.value), ast.Subscript) and chain(strip_cast(s.value).value) == tg.id
                  and const_value(strip_cast(s.value).slice) == 1]
         ln = [n for s in later for n in cfg.nodes_for(s)]
         sn = cfg.nodes_for(st)
         return bool(ln) and bool(sn) and len(local_defs(fi, tg.id)) == 1 and all(cfg.always_followed_by(n, ln) for n in sn)
     return False
+
+
+def _callable_leaves(g: FuncInfo, e: ast.AST, depth: int = 0):
+    """The expressions a callable expression can stand for: both arms of a conditional expression, every definition of a
+    local, every value of a dict / tuple / list literal it is picked from (a dispatch table denotes the set of its values).
+    None when some alternative is not spelled out."""
+    e = strip_cast(e)
+    if depth > 5:
+        return None
+    if isinstance(e, ast.IfExp):
+        a, b = _callable_leaves(g, e.body, depth + 1), _callable_leaves(g, e.orelse, depth + 1)
+        return None if a is None or b is None else a + b
+    if isinstance(e, ast.BoolOp):
+        parts = [_callable_leaves(g, v, depth + 1) for v in e.values]
+        return None if any(x is None for x in parts) else [y for x in parts for y in x]
+    if isinstance(e, ast.Name):
+        if is_param(g, e.id):
+            return None
+        defs = local_defs(g, e.id)
+        if not defs:
+            return None
+        out = []
+        for _, v, idx in defs:
+            if v is None or idx is not None:
+                return None
+            r = _callable_leaves(g, v, depth + 1)
+            if r is None:
+                return None
+            out += r
+        return out
+    table = None
+    extra = []
+    if isinstance(e, ast.Subscript) and not isinstance(e.slice, ast.Slice):
+        table = resolve(g, e.value)
+    elif isinstance(e, ast.Call) and isinstance(e.func, ast.Attribute) and e.func.attr == "get" and 1 <= len(e.args) <= 2 and not e.keywords:
+        table = resolve(g, e.func.value)
+        extra = e.args[1:]
+        if not isinstance(table, ast.Dict):
+            return None
+    if table is not None:
+        vals = table.values if isinstance(table, ast.Dict) else table.elts if isinstance(table, (ast.Tuple, ast.List)) else None
+        if vals is None or any(isinstance(v, ast.Starred) or v is None for v in vals):
+            return None
+        parts = [_callable_leaves(g, v, depth + 1) for v in [*vals, *extra]]
+        return None if any(x is None for x in parts) else [y for x in parts for y in x]
+    if isinstance(e, ast.Attribute) and isinstance(e.value, ast.Name) and e.value.id == "self":
+        return [e]
+    if isinstance(e, ast.Constant) and e.value is None:
+        return []
+    return None
+
+
+def _callable_targets(repo, g: FuncInfo, call: ast.Call) -> list[FuncInfo]:
+    """Methods of g's class that `call` may invoke when the callee is not written as `self.<name>` but picked first
+    (`action = self._a if x else self._b; action(...)`, `{K1: self._a, K2: self._b}[k](...)`)."""
+    f = call.func
+    if g.cls is None or (isinstance(f, ast.Attribute) and isinstance(f.value, ast.Name) and f.value.id == "self"):
+        return []
+    if not isinstance(strip_cast(f), (ast.Name, ast.IfExp, ast.Subscript, ast.Call, ast.BoolOp)):
+        return []
+    leaves = _callable_leaves(g, f)
+    if not leaves:
+        return []
+    out: list[FuncInfo] = []
+    for a in leaves:
+        ms = [m for m in repo.dispatch(g.cls, a.attr) if not _is_abstract(m)]
+        if not ms:
+            return []
+        out += [m for m in ms if m not in out]
+    call._c03_self_bound = True          # the receiver of every alternative is `self`
+    return out
 
 
 def _self_call_region(repo, root: FuncInfo, stop: set[str]):
@@ -814,11 +1734,13 @@ def _self_call_region(repo, root: FuncInfo, stop: set[str]):
         g = todo.pop()
         for c in calls(g):
             f = c.func
-            if not (isinstance(f, ast.Attribute) and isinstance(f.value, ast.Name) and f.value.id == "self"):
-                continue
-            if f.attr in stop or f.attr == root.name:
-                continue
-            for t in repo.resolve_call(g, c):
+            if isinstance(f, ast.Attribute) and isinstance(f.value, ast.Name) and f.value.id == "self":
+                if f.attr in stop or f.attr == root.name:
+                    continue
+                ts = repo.resolve_call(g, c)
+            else:
+                ts = [t for t in _callable_targets(repo, g, c) if t.name not in stop and t.name != root.name]
+            for t in ts:
                 if t.cls is None or id(t.cls) not in mro or t is root:
                     continue
                 sites.setdefault(t, []).append((g, c))
@@ -836,54 +1758,186 @@ def _ancestors_until(n, stop):
 
 
 def rule_snapshot(ctx: Ctx) -> None:
+    """
+    Network.load_snapshot never raises and always terminates.  The per-entry block (snapshot of the offset, try around the
+    decoding, progress test in the handler) is judged where it stands: in the loop body, or in a helper of the class that the
+    loop body delegates one entry to (then `return` takes the role of `break`, and the loop must end on the returned verdict).
+    Roles are found by what the names do: the offset is the name handed to the decoding call and rebound by its result, the
+    previous offset is the local that copies it before the try.
+    """
+    from ..cfg import expr_may_raise
     repo = ctx.repo
     fi = repo.method("Network", "load_snapshot", "ipv8/peerdiscovery/network.py")
-    cfg = ctx.cfg(fi)
+    dec = _decisions(ctx)
+    region, sites = _self_call_region(repo, fi, stop=set())
+
+    def buf_params(g: FuncInfo, depth: int = 0) -> set[str]:
+        if g is fi:
+            return {fi.params()[1]}
+        out: set[str] = set()
+        if depth > 3:
+            return out
+        for h, c in sites.get(g, []):
+            m = _bind_args(g, c)
+            if m is not None:
+                hb = buf_params(h, depth + 1)
+                out |= {p_ for p_, a in m.items() if isinstance(a, ast.Name) and a.id in hb and not local_defs(g, p_)}
+        return out
+
+    def is_decode(g: FuncInfo, c: ast.Call) -> bool:
+        return call_name(c) == "unpack" and any(isinstance(a, ast.Name) and a.id in buf_params(g) for a in [*c.args, *[k.value for k in c.keywords]])
+
+    def helper_of(g: FuncInfo, c: ast.Call):
+        """the helper of the class a `self.<name>(...)` call delegates to, when it (transitively) decodes an entry"""
+        if not (isinstance(c.func, ast.Attribute) and isinstance(c.func.value, ast.Name) and c.func.value.id == "self"):
+            return None
+        ts = [t for t in repo.resolve_call(g, c) if t in region and t is not g and t is not fi]
+        if len(ts) == 1 and not ts[0].is_async and decodes(ts[0]):
+            return ts[0]
+        return None
+
+    def decodes(g: FuncInfo, depth: int = 0) -> bool:
+        if depth > 3:
+            return False
+        return any(is_decode(g, c) for c in calls(g)) or any(
+            t in region and t is not g and t is not fi and decodes(t, depth + 1) for c in calls(g)
+            if isinstance(c.func, ast.Attribute) and chain(c.func.value) == "self" for t in repo.resolve_call(g, c))
+
+    def entry_call(g: FuncInfo, node: ast.AST):
+        for c in calls(node):
+            if is_decode(g, c) or helper_of(g, c) is not None:
+                return c
+        return None
+
     all_loops = [n for n in walk_no_nested(fi.node) if isinstance(n, (ast.While, ast.For))]
-    # the decoding loop: the one that contains the call decoding a snapshot entry
-    loops = [n for n in all_loops if any(call_name(c) == "unpack" and any(chain(a) == fi.params()[1] for a in c.args)
-                                         for c in calls(n))] or [n for n in all_loops if isinstance(n, ast.While)]
+    # the decoding loop: the one that contains the call decoding a snapshot entry (directly or through a helper)
+    loops = [n for n in all_loops if entry_call(fi, n) is not None] or [n for n in all_loops if isinstance(n, ast.While)]
     ctx.anchor(loops, "while loop in load_snapshot")
     loop = loops[0]
     # 1. every raising statement of the loop is inside try/except Exception
-    from ..cfg import expr_may_raise
-    tries: list[ast.Try] = []
+    tries: list[tuple[FuncInfo, ast.Try]] = []
+    delegations: list[tuple[FuncInfo, ast.stmt, ast.Call, FuncInfo]] = []
+    visited: set = set()
 
-    def scan(stmts) -> None:
+    def scan(g: FuncInfo, stmts) -> None:
         for st in stmts:
             if isinstance(st, ast.Try):
-                tries.append(st)
+                tries.append((g, st))
                 continue            # body: contained (checked below); handlers: checked below
             if isinstance(st, ast.If):
-                ctx.check(not expr_may_raise(st.test), "snapshot-never-raises", fi, st.test, "loop condition outside the try cannot raise",
+                ctx.check(not expr_may_raise(st.test), "snapshot-never-raises", g, st.test, "loop condition outside the try cannot raise",
                           "a statement of the snapshot loop that may raise is outside try/except Exception")
-                scan(st.body)
-                scan(st.orelse)
+                scan(g, st.body)
+                scan(g, st.orelse)
                 continue
-            ctx.check(not expr_may_raise(st), "snapshot-never-raises", fi, st, "loop statement outside the try cannot raise",
+            if isinstance(st, (ast.With, ast.AsyncWith)):
+                # `with self.graph_lock:` taken per entry instead of around the loop: the block is part of the loop body
+                for it in st.items:
+                    ctx.check(not expr_may_raise(it.context_expr), "snapshot-never-raises", g, it.context_expr,
+                              "context manager expression outside the try cannot raise",
+                              "a statement of the snapshot loop that may raise is outside try/except Exception")
+                scan(g, st.body)
+                continue
+            if isinstance(st, ast.Expr) and isinstance(st.value, ast.Constant):
+                continue
+            # one entry delegated to a helper of the class: the helper's body is part of the loop body
+            val = strip_cast(st.value) if isinstance(st, (ast.Assign, ast.AnnAssign, ast.Expr, ast.Return)) and st.value is not None else None
+            if isinstance(val, ast.Call) and helper_of(g, val) is not None \
+                    and not any(expr_may_raise(a) for a in [*val.args, *[k.value for k in val.keywords]]):
+                h = helper_of(g, val)
+                delegations.append((g, st, val, h))
+                if h not in visited and len(visited) < 4:
+                    visited.add(h)
+                    scan(h, h.node.body)
+                continue
+            ctx.check(not expr_may_raise(st), "snapshot-never-raises", g, st, "loop statement outside the try cannot raise",
                       "a statement of the snapshot loop that may raise is outside try/except Exception")
-    scan(loop.body)
+    scan(fi, loop.body)
     if isinstance(loop, ast.While):
         ctx.check(not expr_may_raise(loop.test), "snapshot-never-raises", fi, loop.test, "loop condition cannot raise",
                   "the snapshot loop condition may raise outside try/except Exception")
     ctx.anchor(tries, "try in load_snapshot loop")
-    for t in tries:
+
+    def roles(g: FuncInfo, t: ast.Try) -> tuple[str, str]:
+        """(offset name, previous-offset name) of the entry block around try t in g"""
+        off = None
+        for s in t.body:
+            c = entry_call(g, s)
+            if c is not None and isinstance(s, (ast.Assign, ast.AnnAssign)):
+                passed = {a.id for a in [*c.args, *[k.value for k in c.keywords]] if isinstance(a, ast.Name)} - buf_params(g)
+                tg = s.targets if isinstance(s, ast.Assign) else [s.target]
+                stored = {x.id for t_ in tg for x in ast.walk(t_) if isinstance(x, ast.Name)}
+                both = passed & stored
+                if len(both) == 1:
+                    off = next(iter(both))
+        if off is None:
+            off = "offset"
+        in_body = {id(n) for s in t.body for n in ast.walk(s)}
+        cands = {tt.id for s in walk_no_nested(g.node) if isinstance(s, ast.Assign) and id(s) not in in_body and len(s.targets) == 1
+                 for tt in s.targets if isinstance(tt, ast.Name) and chain(strip_cast(s.value)) == off and tt.id != off}
+        prev = next(iter(cands)) if len(cands) == 1 else "previous_offset"
+        return off, prev
+
+    def no_advance(f, off: str, prev: str) -> bool:
+        # offset <= previous_offset  ==  not (previous_offset < offset)
+        if f.op != "lt":
+            return False
+        if chain(f.left) == prev and chain(f.right) == off and not f.pos:
+            return True
+        return chain(f.left) == off and chain(f.right) == prev and f.pos
+
+    def caller_leaves(g: FuncInfo, r: ast.Return) -> bool:
+        """the verdict returned by `r` makes every loop body that delegated to g leave the loop"""
+        mine = [(h, st, c) for h, st, c, t_ in delegations if t_ is g]
+        if not mine:
+            return False
+        for h, st, c in mine:
+            if h is not fi:
+                return False
+            hcfg = ctx.cfg(h)
+            left = False
+            for b in [n for n in ast.walk(loop) if isinstance(n, (ast.Break, ast.Return))]:
+                if isinstance(b, ast.Break) and any(isinstance(a, (ast.While, ast.For)) and a is not loop for a in _ancestors_until(b, loop)):
+                    continue
+                for f in dec.facts(h, hcfg, b):
+                    t_ = _local_test(f)
+                    if t_ is None:
+                        continue
+                    tested, kind = t_
+                    leaf = None
+                    if tested is c:
+                        leaf = r.value
+                    elif isinstance(tested, ast.Name):
+                        for dst, val, idx in local_defs(h, tested.id):
+                            if dst is st and val is not None and strip_cast(val) is c:
+                                rv = strip_cast(r.value) if r.value is not None else None
+                                if idx is None:
+                                    leaf = rv
+                                elif isinstance(rv, ast.Tuple) and 0 <= idx < len(rv.elts):
+                                    leaf = rv.elts[idx]
+                    if leaf is not None and _holds(kind, leaf) is True:
+                        left = True
+            if not left:
+                return False
+        return True
+
+    for g, t in tries:
+        cfg = ctx.cfg(g)
+        off, prev = roles(g, t)
         ok = any(_catches_all(h) for h in t.handlers)
-        ctx.check(ok, "snapshot-never-raises", fi, t, "snapshot entry decoding wrapped in try/except Exception",
+        ctx.check(ok, "snapshot-never-raises", g, t, "snapshot entry decoding wrapped in try/except Exception",
                   "a malformed snapshot entry raises out of load_snapshot")
         for h in t.handlers:
-            # 2. progress: handler breaks when offset did not advance
-            brk = [n for n in ast.walk(h) if isinstance(n, ast.Break)]
+            # 2. progress: handler leaves the loop when offset did not advance
+            leave = [n for n in ast.walk(h) if isinstance(n, (ast.Break, ast.Return))]
             ok_b = False
-            for b in brk:
-                for f in facts_at(cfg, b):
-                    if f.op == "lt" and {chain(f.left), chain(f.right)} == {"offset", "previous_offset"}:
-                        # offset <= previous_offset  ==  not (previous_offset < offset)
-                        if chain(f.left) == "previous_offset" and chain(f.right) == "offset" and not f.pos:
-                            ok_b = True
-                        if chain(f.left) == "offset" and chain(f.right) == "previous_offset" and f.pos:
-                            ok_b = True
-            ctx.check(ok_b, "snapshot-never-raises", fi, h, "handler leaves the loop when the offset did not advance",
+            for b in leave:
+                if any(no_advance(f, off, prev) for f in dec.facts(g, cfg, b)):
+                    if g is fi:
+                        ok_b = True                      # break out of the loop / return from load_snapshot
+                    elif isinstance(b, ast.Return) and caller_leaves(g, b):
+                        ok_b = True
+            ctx.check(ok_b, "snapshot-never-raises", g, h, "handler leaves the loop when the offset did not advance",
                       "a failing entry that does not advance the offset loops forever")
             # 3. the handler cannot raise itself: reads of locals assigned only inside the try body must be
             #    unreachable unless the assignment completed (offset advanced <=> tuple assignment completed)
@@ -893,42 +1947,73 @@ def rule_snapshot(ctx: Ctx) -> None:
                     if isinstance(n, ast.Name) and isinstance(n.ctx, ast.Store):
                         body_assigned.add(n.id)
             outside = set()
-            for n in walk_no_nested(fi.node):
+            for n in walk_no_nested(g.node):
                 if isinstance(n, ast.Name) and isinstance(n.ctx, ast.Store) and not any(n in list(ast.walk(s)) for s in t.body):
                     outside.add(n.id)
-            outside |= set(fi.params())
+            outside |= set(g.params())
             for n in ast.walk(h):
                 if isinstance(n, ast.Name) and isinstance(n.ctx, ast.Load) and n.id in body_assigned and n.id not in outside:
-                    # must be assigned in the same statement that advances `offset`, and read only when offset advanced
-                    same_stmt = any(isinstance(s, ast.Assign) and {"offset", n.id} <= {x.id for tt in s.targets for x in ast.walk(tt) if isinstance(x, ast.Name)}
+                    # must be assigned in the same statement that advances the offset, and read only when the offset advanced
+                    same_stmt = any(isinstance(s, ast.Assign) and {off, n.id} <= {x.id for tt in s.targets for x in ast.walk(tt) if isinstance(x, ast.Name)}
                                     for s in t.body)
-                    adv = any((f.op == "lt" and chain(f.left) == "previous_offset" and chain(f.right) == "offset" and f.pos)
-                              for f in facts_at(cfg, n))
-                    ctx.check(same_stmt and adv, "snapshot-never-raises", fi, enclosing_stmt(n),
+                    adv = any((f.op == "lt" and chain(f.left) == prev and chain(f.right) == off and f.pos)
+                              for f in dec.facts(g, cfg, n))
+                    ctx.check(same_stmt and adv, "snapshot-never-raises", g, enclosing_stmt(n),
                               f"handler reads `{n.id}` only when the statement assigning it completed",
                               f"the exception handler reads `{n.id}` which may be unbound: the handler itself raises")
             for c in [c for c in ast.walk(h) if isinstance(c, ast.Call)]:
                 cn = chain(c.func) or ""
                 ok_c = cn.startswith(("logger.", "logging.", "self.logger.")) or cn in ("repr", "str")
-                ctx.check(ok_c, "snapshot-never-raises", fi, c, "handler only logs", "the handler calls code that can raise")
+                ctx.check(ok_c, "snapshot-never-raises", g, c, "handler only logs", "the handler calls code that can raise")
     # previous_offset = offset, taken on every path into the try body, and offset only moves inside the try body
-    po = [s for s in walk_no_nested(loop) if isinstance(s, ast.Assign) and any(chain(t) == "previous_offset" for t in s.targets)]
-    po_nodes = [n for s in po for n in cfg.nodes_for(s)]
-    first = [n for t in tries if t.body for n in cfg.nodes_for(t.body[0])]
-    ok_po = bool(po) and all(chain(strip_cast(s.value)) == "offset" and len(s.targets) == 1 for s in po) and bool(first) \
-        and all(cfg.must_complete(n, po_nodes) for n in first)
-    # between the snapshot of the offset and the try body nothing moves the offset
-    if ok_po:
-        in_try = {id(n) for t in tries for st in t.body for n in ast.walk(st)}
-        movers = [n for st in walk_no_nested(loop) if isinstance(st, (ast.Assign, ast.AugAssign, ast.AnnAssign)) and id(st) not in in_try
-                  and "offset" in {x.id for x in ast.walk(st) if isinstance(x, ast.Name) and isinstance(x.ctx, ast.Store)}
-                  for n in cfg.nodes_for(st)]
-        for m in movers:
-            r = cfg.reach([v for v, lab in m.succ if lab != "exc"], cut_nodes=po_nodes)
-            if any(n in r for n in first):
-                ok_po = False
-    ctx.check(ok_po, "snapshot-never-raises", fi, loop, "previous_offset snapshots offset before each entry",
-              "progress detection is broken: previous_offset is not the offset before the entry")
+    for g in dict.fromkeys(g for g, _ in tries):
+        cfg = ctx.cfg(g)
+        gtries = [t for h, t in tries if h is g]
+        off, prev = roles(g, gtries[0])
+        scope = loop if g is fi else g.node
+        po = [s for s in walk_no_nested(scope) if isinstance(s, ast.Assign) and any(chain(t) == prev for t in s.targets)]
+        po_nodes = [n for s in po for n in cfg.nodes_for(s)]
+        first = [n for t in gtries if t.body for n in cfg.nodes_for(t.body[0])]
+        ok_po = bool(po) and all(chain(strip_cast(s.value)) == off and len(s.targets) == 1 for s in po) and bool(first) \
+            and all(cfg.must_complete(n, po_nodes) for n in first)
+        # between the snapshot of the offset and the try body nothing moves the offset
+        if ok_po:
+            in_try = {id(n) for t in gtries for st in t.body for n in ast.walk(st)}
+            movers = [n for st in walk_no_nested(scope) if isinstance(st, (ast.Assign, ast.AugAssign, ast.AnnAssign)) and id(st) not in in_try
+                      and off in {x.id for x in ast.walk(st) if isinstance(x, ast.Name) and isinstance(x.ctx, ast.Store)}
+                      for n in cfg.nodes_for(st)]
+            for m in movers:
+                r = cfg.reach([v for v, lab in m.succ if lab != "exc"], cut_nodes=po_nodes)
+                if any(n in r for n in first):
+                    ok_po = False
+        ctx.check(ok_po, "snapshot-never-raises", g, loop if g is fi else g.node, "previous_offset snapshots offset before each entry",
+                  "progress detection is broken: previous_offset is not the offset before the entry")
+    # an entry delegated to a helper: the offset the helper advanced is the one the loop goes on with
+    for h, st, c, g in delegations:
+        gt = [t for g2, t in tries if g2 is g]
+        if not gt:
+            continue
+        off, _ = roles(g, gt[0])
+        m = _bind_args(g, c) or {}
+        a = m.get(off)
+        tg = (st.targets[0] if isinstance(st, ast.Assign) and len(st.targets) == 1 else getattr(st, "target", None)) if not isinstance(st, ast.Expr) else None
+        ok_t = False
+        if isinstance(a, ast.Name) and tg is not None:
+            rets = [r for r in walk_no_nested(g.node) if isinstance(r, ast.Return)]
+            if isinstance(tg, ast.Name) and tg.id == a.id:
+                ok_t = bool(rets) and all(r.value is not None and chain(strip_cast(r.value)) == off for r in rets)
+            elif isinstance(tg, (ast.Tuple, ast.List)):
+                idx = [i for i, e in enumerate(tg.elts) if isinstance(e, ast.Name) and e.id == a.id]
+                if len(idx) == 1:
+                    ok_t = bool(rets) and all(isinstance(strip_cast(r.value), ast.Tuple) and len(strip_cast(r.value).elts) == len(tg.elts)
+                                              and chain(strip_cast(r.value).elts[idx[0]]) == off for r in rets if True)
+                    # falling off the end of the helper would return None and break the unpacking
+                    gcfg = ctx.cfg(g)
+                    live = gcfg.reach()
+                    if any(u in live and not (u.kind == "stmt" and isinstance(u.ast, ast.Return)) for u, _ in gcfg.exit.pred):
+                        ok_t = False
+        ctx.check(ok_t, "snapshot-never-raises", h, st, f"the offset advanced by {g.qualname} is stored back into the loop's offset",
+                  f"the offset returned by {g.qualname} is not the one the loop continues with: a failing entry is retried forever or entries are skipped")
 
 
 def rule_listener_lists(ctx: Ctx) -> None:
@@ -1037,3 +2122,385 @@ WITNESSES = [
      "old": "                    if offset <= previous_offset:\n                        # We got stuck, or even went back in time.\n                        logger.exception(\"Snapshot loading got stuck! Aborting snapshot load.\")\n                        break\n",
      "new": "                    if offset < previous_offset:\n                        logger.exception(\"Snapshot loading got stuck! Aborting snapshot load.\")\n                        break\n"},
 ]
+
+# round 2: shapes the generalised rules must still reject (decision helpers, dispatch tables, delegated blocks)
+WITNESSES += [{'name': 'round 2: decision helper returns the message id without comparing the prefix',
+  'rule': 'prefix-before-dispatch',
+  'file': 'ipv8/community.py',
+  'edits': [{'file': 'ipv8/community.py',
+             'old': '        if self._prefix != data[:22] or len(data) < 23:\n'
+                    '            return\n'
+                    '        msg_id = data[22]\n'
+                    '        handler = self.decode_map[msg_id]\n',
+             'new': '        msg_id = self._message_id_of(data)\n'
+                    '        if msg_id is None:\n'
+                    '            return\n'
+                    '        handler = self.decode_map[msg_id]\n'},
+            {'file': 'ipv8/community.py',
+             'old': '    def walk_to(self, address: Address) -> None:\n',
+             'new': '    @final\n'
+                    '    def _message_id_of(self, data: bytes) -> int | None:\n'
+                    '        if len(data) >= 23:\n'
+                    '            return data[22]\n'
+                    '        return None\n'
+                    '\n'
+                    '    def walk_to(self, address: Address) -> None:\n'}]},
+ {'name': 'round 2: decision flag also set on a path without the prefix comparison',
+  'rule': 'prefix-before-dispatch',
+  'file': 'ipv8/community.py',
+  'edits': [{'file': 'ipv8/community.py',
+             'old': '        if self._prefix != data[:22] or len(data) < 23:\n'
+                    '            return\n'
+                    '        msg_id = data[22]\n'
+                    '        handler = self.decode_map[msg_id]\n',
+             'new': '        ours = False\n'
+                    '        if self._prefix == data[:22]:\n'
+                    '            ours = True\n'
+                    '        if len(data) >= 23:\n'
+                    '            ours = True\n'
+                    '        if not ours:\n'
+                    '            return\n'
+                    '        msg_id = data[22]\n'
+                    '        handler = self.decode_map[msg_id]\n'}]},
+ {'name': 'round 2: verdict helper has a passing return that is not behind the prefix comparison',
+  'rule': 'prefix-before-dispatch',
+  'file': 'ipv8/community.py',
+  'edits': [{'file': 'ipv8/community.py',
+             'old': '        if self._prefix != data[:22] or len(data) < 23:\n'
+                    '            return\n'
+                    '        msg_id = data[22]\n'
+                    '        handler = self.decode_map[msg_id]\n',
+             'new': '        verdict = self._classify(data)\n'
+                    '        if verdict == "foreign":\n'
+                    '            return\n'
+                    '        msg_id = data[22]\n'
+                    '        handler = self.decode_map[msg_id]\n'},
+            {'file': 'ipv8/community.py',
+             'old': '    def walk_to(self, address: Address) -> None:\n',
+             'new': '    @final\n'
+                    '    def _classify(self, data: bytes) -> str:\n'
+                    '        if len(data) < 23:\n'
+                    '            return "short"\n'
+                    '        if self._prefix != data[:22]:\n'
+                    '            return "foreign"\n'
+                    '        return "ours"\n'
+                    '\n'
+                    '    def walk_to(self, address: Address) -> None:\n'}]},
+ {'name': 'round 2: packet bytes rebound between the decision and the dispatch',
+  'rule': 'prefix-before-dispatch',
+  'file': 'ipv8/community.py',
+  'edits': [{'file': 'ipv8/community.py',
+             'old': '        if self._prefix != data[:22] or len(data) < 23:\n'
+                    '            return\n'
+                    '        msg_id = data[22]\n'
+                    '        handler = self.decode_map[msg_id]\n',
+             'new': '        ours = self._prefix == data[:22] and len(data) >= 23\n'
+                    '        data = data[1:]\n'
+                    '        if not ours:\n'
+                    '            return\n'
+                    '        msg_id = data[22]\n'
+                    '        handler = self.decode_map[msg_id]\n'}]},
+ {'name': 'round 2: prefix map .get() without default iterated although it may be None',
+  'rule': 'prefix-before-dispatch',
+  'file': 'ipv8/messaging/interfaces/endpoint.py',
+  'edits': [{'file': 'ipv8/messaging/interfaces/endpoint.py',
+             'old': '        prefix = packet[1][:self.prefixlen]\n'
+                    '        listeners = self._prefix_map.get(prefix, self._listeners)\n'
+                    '        for listener in listeners:\n',
+             'new': '        prefix = packet[1][:self.prefixlen]\n'
+                    '        listeners = self._prefix_map.get(prefix)\n'
+                    '        for listener in listeners:\n'}]},
+ {'name': 'round 2: KeyError fallback of the prefix lookup is not the generic listener list',
+  'rule': 'prefix-before-dispatch',
+  'file': 'ipv8/messaging/interfaces/endpoint.py',
+  'edits': [{'file': 'ipv8/messaging/interfaces/endpoint.py',
+             'old': '        prefix = packet[1][:self.prefixlen]\n'
+                    '        listeners = self._prefix_map.get(prefix, self._listeners)\n'
+                    '        for listener in listeners:\n',
+             'new': '        try:\n'
+                    '            listeners = self._prefix_map[packet[1][:self.prefixlen]]\n'
+                    '        except KeyError:\n'
+                    '            listeners = []\n'
+                    '        for listener in listeners:\n'}]},
+ {'name': 'round 2: listener selection helper keyed on something that is not the datagram prefix',
+  'rule': 'prefix-before-dispatch',
+  'file': 'ipv8/messaging/interfaces/endpoint.py',
+  'edits': [{'file': 'ipv8/messaging/interfaces/endpoint.py',
+             'old': '        prefix = packet[1][:self.prefixlen]\n'
+                    '        listeners = self._prefix_map.get(prefix, self._listeners)\n'
+                    '        for listener in listeners:\n',
+             'new': '        for listener in self._listeners_for(packet[0]):\n'},
+            {'file': 'ipv8/messaging/interfaces/endpoint.py',
+             'old': '    def notify_listeners(self, packet: tuple[Address, bytes]) -> None:\n',
+             'new': '    @final\n'
+                    '    def _listeners_for(self, data: bytes) -> list[EndpointListener]:\n'
+                    '        prefix = data[:self.prefixlen]\n'
+                    '        if prefix in self._prefix_map:\n'
+                    '            return self._prefix_map[prefix]\n'
+                    '        return self._listeners\n'
+                    '\n'
+                    '    def notify_listeners(self, packet: tuple[Address, bytes]) -> None:\n'}]},
+ {'name': 'round 2: length check helper called with the start instead of the end',
+  'rule': 'length-honoured',
+  'file': 'ipv8/messaging/serialization.py',
+  'edits': [{'file': 'ipv8/messaging/serialization.py',
+             'old': '        str_length = unpack_from(self.length_format, data, offset)[0] * self.base\n'
+                    '        end = offset + self.length_size + str_length\n'
+                    '        if end > len(data):\n'
+                    '            msg = f"Declared length {str_length} exceeds the {len(data) - offset - self.length_size} bytes left in the buffer"\n'
+                    '            raise PackError(msg)\n'
+                    '        unpack_list.append(data[offset + self.length_size: end])\n'
+                    '        return end\n',
+             'new': '        str_length = unpack_from(self.length_format, data, offset)[0] * self.base\n'
+                    '        end = offset + self.length_size + str_length\n'
+                    '        self._require(data, offset, str_length)\n'
+                    '        unpack_list.append(data[offset + self.length_size: end])\n'
+                    '        return end\n'},
+            {'file': 'ipv8/messaging/serialization.py',
+             'old': '    @abc.abstractmethod\n    def unpack(self, data: bytes, offset: int, unpack_list: list, *args: A) -> int:\n',
+             'new': '    def _require(self, data: bytes, end: int, declared: int) -> None:\n'
+                    '        if end > len(data):\n'
+                    '            msg = f"Declared length {declared} exceeds the buffer"\n'
+                    '            raise PackError(msg)\n'
+                    '\n'
+                    '    @abc.abstractmethod\n'
+                    '    def unpack(self, data: bytes, offset: int, unpack_list: list, *args: A) -> int:\n'}]},
+ {'name': 'round 2: remainder check helper only called when consume_all is not set',
+  'rule': 'consume-all',
+  'file': 'ipv8/messaging/serialization.py',
+  'edits': [{'file': 'ipv8/messaging/serialization.py',
+             'old': '        remainder = data[offset:]\n'
+                    '        if not consume_all:\n'
+                    '            unpacked.append(remainder)\n'
+                    '        elif remainder:\n'
+                    '            msg = (f"Incoming packet {[serializable_class.__name__ for serializable_class in serializables]} "\n'
+                    '                   f"({hexlify(data)!r}) has extra data: ({hexlify(remainder)!r})")\n'
+                    '            raise PackError(msg)\n'
+                    '        return unpacked\n',
+             'new': '        if not consume_all:\n'
+                    '            self._ensure_consumed(serializables, data, offset)\n'
+                    '        else:\n'
+                    '            unpacked.append(data[offset:])\n'
+                    '        return unpacked\n'
+                    '\n'
+                    '    @typing.final\n'
+                    '    def _ensure_consumed(self, serializables: Sequence[type[Serializable]], data: bytes, offset: int) -> None:\n'
+                    '        remainder = data[offset:]\n'
+                    '        if remainder:\n'
+                    '            msg = (f"Incoming packet {[serializable_class.__name__ for serializable_class in serializables]} "\n'
+                    '                   f"({hexlify(data)!r}) has extra data: ({hexlify(remainder)!r})")\n'
+                    '            raise PackError(msg)\n'}]},
+ {'name': 'round 2: slicing helper bounds the start, not the wire-supplied end',
+  'rule': 'length-honoured',
+  'file': 'ipv8/messaging/serialization.py',
+  'edits': [{'file': 'ipv8/messaging/serialization.py',
+             'old': '        str_length = unpack_from(self.length_format, data, offset)[0] * self.base\n'
+                    '        end = offset + self.length_size + str_length\n'
+                    '        if end > len(data):\n'
+                    '            msg = f"Declared length {str_length} exceeds the {len(data) - offset - self.length_size} bytes left in the buffer"\n'
+                    '            raise PackError(msg)\n'
+                    '        unpack_list.append(data[offset + self.length_size: end])\n'
+                    '        return end\n',
+             'new': '        str_length = unpack_from(self.length_format, data, offset)[0] * self.base\n'
+                    '        end = offset + self.length_size + str_length\n'
+                    '        unpack_list.append(self._take(data, offset + self.length_size, end))\n'
+                    '        return end\n'},
+            {'file': 'ipv8/messaging/serialization.py',
+             'old': '    @abc.abstractmethod\n    def unpack(self, data: bytes, offset: int, unpack_list: list, *args: A) -> int:\n',
+             'new': '    def _take(self, data: bytes, start: int, end: int) -> bytes:\n'
+                    '        if len(data) < start:\n'
+                    '            msg = f"Declared end {end} exceeds the {len(data)} bytes in the buffer"\n'
+                    '            raise PackError(msg)\n'
+                    '        return data[start:end]\n'
+                    '\n'
+                    '    @abc.abstractmethod\n'
+                    '    def unpack(self, data: bytes, offset: int, unpack_list: list, *args: A) -> int:\n'}]},
+ {'name': 'round 2: cell parsing helper guards with a too small length',
+  'rule': 'bounds-before-index',
+  'file': 'ipv8/messaging/anonymization/crypto.py',
+  'edits': [{'file': 'ipv8/messaging/anonymization/crypto.py',
+             'old': '        if len(data) < 29:\n'
+                    '            self.logger.debug("Dropping truncated cell from %s", source_address)\n'
+                    '            return\n'
+                    '\n'
+                    '        cell = CellPayload.from_bin(data)\n',
+             'new': '        cell = self._parse_cell(source_address, data)\n        if cell is None:\n            return\n'},
+            {'file': 'ipv8/messaging/anonymization/crypto.py',
+             'old': '    def relay_cell(self, cell: CellPayload) -> None:\n',
+             'new': '    @final\n'
+                    '    def _parse_cell(self, source_address: Address, data: bytes) -> CellPayload | None:\n'
+                    '        if len(data) < 23:\n'
+                    '            self.logger.debug("Dropping truncated cell from %s", source_address)\n'
+                    '            return None\n'
+                    '        return CellPayload.from_bin(data)\n'
+                    '\n'
+                    '    def relay_cell(self, cell: CellPayload) -> None:\n'}]},
+ {'name': 'round 2: handler invocation moved into a helper without try/except Exception',
+  'rule': 'handler-contained',
+  'file': 'ipv8/community.py',
+  'edits': [{'file': 'ipv8/community.py',
+             'old': '        if self._prefix != data[:22] or len(data) < 23:\n'
+                    '            return\n'
+                    '        msg_id = data[22]\n'
+                    '        handler = self.decode_map[msg_id]\n'
+                    '        if handler is not None:\n'
+                    '            try:\n'
+                    '                result: Coroutine | None = handler(source_address, data)\n'
+                    '                if iscoroutine(result):\n'
+                    '                    aw_result = cast("Awaitable", result)\n'
+                    '                    self.register_anonymous_task("on_packet", ensure_future(aw_result), ignore=(Exception,))\n'
+                    '            except Exception:\n'
+                    '                self.logger.exception("Exception occurred while handling packet!\\n%s",\n'
+                    '                                      "".join(format_exception(*sys.exc_info())))\n'
+                    '        elif warn_unknown:\n'
+                    '            self.logger.warning("Received unknown message: %d from (%s, %d)", msg_id, *source_address)\n',
+             'new': '        if self._prefix != data[:22] or len(data) < 23:\n'
+                    '            return\n'
+                    '        msg_id = data[22]\n'
+                    '        handler = self.decode_map[msg_id]\n'
+                    '        if handler is not None:\n'
+                    '            self._invoke(handler, source_address, data)\n'
+                    '        elif warn_unknown:\n'
+                    '            self.logger.warning("Received unknown message: %d from (%s, %d)", msg_id, *source_address)\n'
+                    '\n'
+                    '    @final\n'
+                    '    def _invoke(self, handler: MessageHandlerFunction, source_address: Address, data: bytes) -> None:\n'
+                    '        result: Coroutine | None = handler(source_address, data)\n'
+                    '        if iscoroutine(result):\n'
+                    '            aw_result = cast("Awaitable", result)\n'
+                    '            self.register_anonymous_task("on_packet", ensure_future(aw_result), ignore=(Exception,))\n'}]},
+ {'name': 'round 2: snapshot entry helper reports a stuck entry with the verdict that continues the loop',
+  'rule': 'snapshot-never-raises',
+  'file': 'ipv8/peerdiscovery/network.py',
+  'edits': [{'file': 'ipv8/peerdiscovery/network.py',
+             'old': '        with self.graph_lock:\n'
+                    '            while offset < snaplen:\n'
+                    '                previous_offset = offset\n'
+                    '                try:\n'
+                    '                    address, offset = default_serializer.unpack("address", snapshot, offset)\n'
+                    '                    address = cast("Address", address)\n'
+                    '                    self._all_addresses[address] = WalkableAddress(b"", None, False)\n'
+                    '                except Exception:\n'
+                    '                    if offset <= previous_offset:\n'
+                    '                        # We got stuck, or even went back in time.\n'
+                    '                        logger.exception("Snapshot loading got stuck! Aborting snapshot load.")\n'
+                    '                        break\n'
+                    '                    logger.warning("Snapshot failed on entry, skipping %s!", repr(address))\n',
+             'new': '        with self.graph_lock:\n'
+                    '            while offset < snaplen:\n'
+                    '                offset, stuck = self._load_entry(snapshot, offset)\n'
+                    '                if stuck:\n'
+                    '                    break\n'
+                    '\n'
+                    '    @final\n'
+                    '    def _load_entry(self, snapshot: bytes, offset: int) -> tuple[int, bool]:\n'
+                    '        previous_offset = offset\n'
+                    '        try:\n'
+                    '            address, offset = default_serializer.unpack("address", snapshot, offset)\n'
+                    '            address = cast("Address", address)\n'
+                    '            self._all_addresses[address] = WalkableAddress(b"", None, False)\n'
+                    '        except Exception:\n'
+                    '            if offset <= previous_offset:\n'
+                    '                logger.exception("Snapshot loading got stuck! Aborting snapshot load.")\n'
+                    '                return offset, False\n'
+                    '            logger.warning("Snapshot failed on entry, skipping %s!", repr(address))\n'
+                    '        return offset, False\n'}]},
+ {'name': 'round 2: offset advanced by the snapshot entry helper is dropped by the loop',
+  'rule': 'snapshot-never-raises',
+  'file': 'ipv8/peerdiscovery/network.py',
+  'edits': [{'file': 'ipv8/peerdiscovery/network.py',
+             'old': '        with self.graph_lock:\n'
+                    '            while offset < snaplen:\n'
+                    '                previous_offset = offset\n'
+                    '                try:\n'
+                    '                    address, offset = default_serializer.unpack("address", snapshot, offset)\n'
+                    '                    address = cast("Address", address)\n'
+                    '                    self._all_addresses[address] = WalkableAddress(b"", None, False)\n'
+                    '                except Exception:\n'
+                    '                    if offset <= previous_offset:\n'
+                    '                        # We got stuck, or even went back in time.\n'
+                    '                        logger.exception("Snapshot loading got stuck! Aborting snapshot load.")\n'
+                    '                        break\n'
+                    '                    logger.warning("Snapshot failed on entry, skipping %s!", repr(address))\n',
+             'new': '        with self.graph_lock:\n'
+                    '            while offset < snaplen:\n'
+                    '                _, stuck = self._load_entry(snapshot, offset)\n'
+                    '                if stuck:\n'
+                    '                    break\n'
+                    '\n'
+                    '    @final\n'
+                    '    def _load_entry(self, snapshot: bytes, offset: int) -> tuple[int, bool]:\n'
+                    '        previous_offset = offset\n'
+                    '        try:\n'
+                    '            address, offset = default_serializer.unpack("address", snapshot, offset)\n'
+                    '            address = cast("Address", address)\n'
+                    '            self._all_addresses[address] = WalkableAddress(b"", None, False)\n'
+                    '        except Exception:\n'
+                    '            if offset <= previous_offset:\n'
+                    '                logger.exception("Snapshot loading got stuck! Aborting snapshot load.")\n'
+                    '                return offset, True\n'
+                    '            logger.warning("Snapshot failed on entry, skipping %s!", repr(address))\n'
+                    '        return offset, False\n'}]},
+ {'name': 'round 2: remainder not delimited by the threaded offset',
+  'rule': 'consume-all',
+  'file': 'ipv8/messaging/serialization.py',
+  'edits': [{'file': 'ipv8/messaging/serialization.py',
+             'old': '        unpacked: list[Serializable | bytes] = []\n'
+                    '        for serializable in serializables:\n'
+                    '            payload, offset = self.unpack_serializable(serializable, data, offset)\n'
+                    '            unpacked.append(payload)\n'
+                    '        remainder = data[offset:]\n',
+             'new': '        unpacked: list[Serializable | bytes] = []\n'
+                    '        pos = offset\n'
+                    '        for serializable in serializables:\n'
+                    '            payload, pos = self.unpack_serializable(serializable, data, pos)\n'
+                    '            unpacked.append(payload)\n'
+                    '        remainder = data[len(data):]\n'}]},
+ {'name': 'round 2: domain address: the fixed read that proves the name length is not at the slice end',
+  'rule': 'length-honoured',
+  'file': 'ipv8/messaging/serialization.py',
+  'edits': [{'file': 'ipv8/messaging/serialization.py',
+             'old': '            length, = unpack_from(">H", data, offset + 1)\n'
+                    '            host = data[offset + 3: offset + 3 + length].decode()\n'
+                    '            unpack_list.append(DomainAddress(host, unpack_from(">H", data, offset + 3 + length)[0]))\n'
+                    '            return offset + 5 + length\n',
+             'new': '            length, = unpack_from(">H", data, offset + 1)\n'
+                    '            host = data[offset + 3: offset + 3 + length].decode()\n'
+                    '            unpack_list.append(DomainAddress(host, unpack_from(">H", data, offset + 1)[0]))\n'
+                    '            return offset + 5 + length\n'}]},
+ {'name': 'round 2: handler invoked through a picked callable whose alternative has no try/except Exception',
+  'rule': 'handler-contained',
+  'file': 'ipv8/community.py',
+  'edits': [{'file': 'ipv8/community.py',
+             'old': '        if self._prefix != data[:22] or len(data) < 23:\n'
+                    '            return\n'
+                    '        msg_id = data[22]\n'
+                    '        handler = self.decode_map[msg_id]\n'
+                    '        if handler is not None:\n'
+                    '            try:\n'
+                    '                result: Coroutine | None = handler(source_address, data)\n'
+                    '                if iscoroutine(result):\n'
+                    '                    aw_result = cast("Awaitable", result)\n'
+                    '                    self.register_anonymous_task("on_packet", ensure_future(aw_result), ignore=(Exception,))\n'
+                    '            except Exception:\n'
+                    '                self.logger.exception("Exception occurred while handling packet!\\n%s",\n'
+                    '                                      "".join(format_exception(*sys.exc_info())))\n'
+                    '        elif warn_unknown:\n'
+                    '            self.logger.warning("Received unknown message: %d from (%s, %d)", msg_id, *source_address)\n',
+             'new': '        if self._prefix != data[:22] or len(data) < 23:\n'
+                    '            return\n'
+                    '        msg_id = data[22]\n'
+                    '        handler = self.decode_map[msg_id]\n'
+                    '        action = self._run_handler if handler is not None else self._unknown_message\n'
+                    '        action(handler, msg_id, source_address, data, warn_unknown)\n'
+                    '\n'
+                    '    def _unknown_message(self, handler: None, msg_id: int, source_address: Address, data: bytes, warn_unknown: bool) -> None:\n'
+                    '        if warn_unknown:\n'
+                    '            self.logger.warning("Received unknown message: %d from (%s, %d)", msg_id, *source_address)\n'
+                    '\n'
+                    '    def _run_handler(self, handler: MessageHandlerFunction, msg_id: int, source_address: Address, data: bytes,\n'
+                    '                     warn_unknown: bool) -> None:\n'
+                    '        result: Coroutine | None = handler(source_address, data)\n'
+                    '        if iscoroutine(result):\n'
+                    '            aw_result = cast("Awaitable", result)\n'
+                    '            self.register_anonymous_task("on_packet", ensure_future(aw_result), ignore=(Exception,))\n'}]}]
